@@ -30,6 +30,7 @@ CONSTANTS Threads, Prog, TSO, Tracing, SBMax,
           QSAttempts,     \* RCU_QS_ACTIVE_ATTEMPTS of the build (driver: -DURCU_VERIF_RCU_QS_ACTIVE_ATTEMPTS)
           WaitAttempts,   \* URCU_WAIT_ATTEMPTS of the build
           FaultBudget,    \* number of spurious / EINTR returns of FUTEX_WAIT per execution
+          FutexMode,      \* "sys": futex(2) works; "compat": futex(2) returns ENOSYS, futex_noasync() falls back to compat_futex_async()
           Skip,           \* mutation parameter: fence labels that are no-ops ({} for every claim)
           Weak            \* mutation parameter: seq_cst store labels that are plain buffered stores ({} for every claim)
 
@@ -49,6 +50,9 @@ Locs == {"gp_ctr", "gp_futex", "gptr", "waiters"} \cup {Rctr(t) : t \in Threads}
 FlId(t) == "F:" \o t
 Flushers == {FlId(t) : t \in Threads}
 FlOf == [f \in Flushers |-> CHOOSE t \in Threads : FlId(t) = f]
+WId(t) == "W:" \o t
+Faulters == {WId(t) : t \in Threads}
+WOf == [f \in Faulters |-> CHOOSE t \in Threads : WId(t) = f]
 HasBit(v, b) == (v \div b) % 2 = 1
 OrBit(v, b) == IF HasBit(v, b) THEN v ELSE v + b
 Range(s) == {s[k] : k \in DOMAIN s}
@@ -65,6 +69,7 @@ variables
   registry = <<>>, qsr = <<>>,                 \* reader lists, head first (plain data under registry_lock)
   sleeping = [t \in Threads |-> "none"],       \* FUTEX_WAIT: location slept on
   woken = [t \in Threads |-> FALSE],
+  wkind = [t \in Threads |-> "none"],          \* why a sleeper was made runnable without FUTEX_WAKE: "SPURIOUS" | "EINTR"
   faults = 0,
   myctr = [t \in Threads |-> 0],               \* each thread's reader word as the thread itself sees it (its TLS)
   alive = [o \in Objs |-> TRUE],
@@ -106,15 +111,25 @@ fl: while (TRUE) {
     }
 }
 
+\* Environment: FUTEX_WAIT returns 0 with the word unchanged (spurious) or fails with EINTR.  Two steps, as in a kernel: the
+\* sleeper leaves the futex queue here (a FUTEX_WAKE that comes next finds nobody and returns 0); it reports the return in wg_wk / a_wk.
+process (faulter \in Faulters) {
+fw: while (TRUE) {
+      await sleeping[WOf[self]] # "none" /\ ~woken[WOf[self]] /\ faults < FaultBudget;
+      with (kind \in {"SPURIOUS", "EINTR"}) { woken[WOf[self]] := TRUE || wkind[WOf[self]] := kind || faults := faults + 1 };
+    }
+}
+
 fair process (thr \in Threads)
 variables i = 1, op = [op |-> "none"], res = "-",
           g = 0, f = 0, w = 0, v = 0, held = NULL, old = NULL,
           oldh = NULL, popped = NULL, it = NULL, nx = NULL, st = 0, wi = 0,
-          wl = 0, scan = <<>>, setw = <<>>, wasonline = FALSE, oret = "", wret = "";
+          wl = 0, scan = <<>>, setw = <<>>, wasonline = FALSE, oret = "", wret = "",
+          caddr = "gp_futex", cval = 0, cret = "";          \* compat_futex_async(): futex word, expected value, where to return
 {
 t_top:  while (i <= Len(Prog[self])) {
-          op := Prog[self][i]; res := "-";
-t_disp:   if (op.op = "reg") { assert myctr[self] = 0; departed[self] := FALSE; goto g_lock }   \* urcu_posix_assert(ctr == 0)
+          op := Prog[self][i];                                   \* (op below is the NEW value: the operation being called)
+          if (op.op = "reg") { assert myctr[self] = 0; departed[self] := FALSE; goto g_lock }   \* urcu_posix_assert(ctr == 0)
           else if (op.op = "unreg") { cs[self] := 0; held := NULL; oret := "x_lock"; goto off_st }
           else if (op.op = "offline") { cs[self] := 0; held := NULL; oret := "t_ret"; goto off_st }
           else if (op.op = "online") { oret := "t_ret"; goto on_ld }
@@ -123,7 +138,13 @@ t_disp:   if (op.op = "reg") { assert myctr[self] = 0; departed[self] := FALSE; 
           else if (op.op = "deref") { assert cs[self] # 0; goto dr_ld }
           else if (op.op = "use") { assert held = NULL \/ alive[held]; goto t_ret }
           else if (op.op = "pub") { goto p_xchg }
-          else if (op.op = "sync") { goto s_call }
+          else if (op.op = "sync") {                             \* urcu_qsbr_synchronize_rcu() is entered
+            wasonline := myctr[self] # 0;                        \* was_online = urcu_qsbr_read_ongoing()   (plain read of own TLS)
+            pre[self] := OpenCS \ {<<self, cs[self]>>};          \* the caller's own implicit section ends here
+            wnlive[self] := TRUE;                                \* DEFINE_URCU_WAIT_NODE(wait, URCU_WAIT_WAITING)
+            if (myctr[self] # 0) { cs[self] := 0; held := NULL; oret := "s_mb0"; goto off_st }   \* if (was_online) urcu_qsbr_thread_offline()
+            else { goto s_mbe }
+          }
           else { if (old # NULL) { alive[old] := FALSE; res := old; old := NULL }; goto t_ret };   \* free
 
         \* ---------------- urcu_qsbr_register_thread: list add under the registry lock, then _urcu_qsbr_thread_online()
@@ -159,15 +180,15 @@ on_mb:    if ("on_mb" \notin Skip) { Mb() };                     \* cmm_smp_mb()
 
         \* ---------------- urcu_qsbr_wake_up_gp
 wk_ldw:   Ld(w, Rwait(self));                                    \* if (uatomic_load(&reader.waiting))
-          if (w = 0) { goto wk_ret };
+          if (w = 0) { if (wret = "q_mb") { goto q_mb } else if (oret = "t_ret") { goto t_ret } else if (oret = "x_lock") { goto x_lock } else { goto s_mb0 } };   \* (w is the NEW value) return to the caller of wake_up_gp
 wk_stw:   St(Rwait(self), 0);                                    \* uatomic_store(&reader.waiting, 0)
 wk_mb:    if ("wk_mb" \notin Skip) { Mb() };                     \* cmm_smp_mb()
 wk_ldf:   Ld(f, "gp_futex");                                     \* if (uatomic_load(&urcu_qsbr_gp.futex) != -1) return
-          if (f # -1) { goto wk_ret };
+          if (f # -1) { if (wret = "q_mb") { goto q_mb } else if (oret = "t_ret") { goto t_ret } else if (oret = "x_lock") { goto x_lock } else { goto s_mb0 } };
 wk_stf:   St("gp_futex", 0);                                     \* uatomic_store(&urcu_qsbr_gp.futex, 0)
-wk_wake:  FWake("gp_futex");                                     \* futex_noasync(&urcu_qsbr_gp.futex, FUTEX_WAKE, 1)
-wk_ret:   if (wret = "q_mb") { goto q_mb }
-          else if (oret = "t_ret") { goto t_ret } else if (oret = "x_lock") { goto x_lock } else { goto s_mb0 };
+wk_wake:  if (FutexMode = "compat") { await Drained(self); acc := Ev(self, "fwake", "gp_futex", "-", "-", "ENOSYS"); cret := "wk"; goto c_mb }
+          else { FWake("gp_futex");                              \* futex_noasync(&urcu_qsbr_gp.futex, FUTEX_WAKE, 1)
+                 if (wret = "q_mb") { goto q_mb } else if (oret = "t_ret") { goto t_ret } else if (oret = "x_lock") { goto x_lock } else { goto s_mb0 } };
 
         \* ---------------- rcu_dereference(gptr), rcu_xchg_pointer(&gptr, obj)
 dr_ld:    Ld(held, "gptr"); res := held;
@@ -176,10 +197,6 @@ p_xchg:   Xchg(old, "gptr", op.o); res := old;
           goto t_ret;
 
         \* ---------------- urcu_qsbr_synchronize_rcu  (CAA_BITS_PER_LONG == 64)
-s_call:   wasonline := myctr[self] # 0;                          \* was_online = urcu_qsbr_read_ongoing()   (plain read of own TLS)
-          pre[self] := OpenCS \ {<<self, cs[self]>>};            \* the caller's own implicit section ends here
-          wnlive[self] := TRUE;                                  \* DEFINE_URCU_WAIT_NODE(wait, URCU_WAIT_WAITING)
-          if (myctr[self] # 0) { cs[self] := 0; held := NULL; oret := "s_mb0"; goto off_st };   \* if (was_online) urcu_qsbr_thread_offline()
 s_mbe:    if ("s_mbe" \notin Skip) { Mb() };                     \* else cmm_smp_mb()
 s_mb0:    if ("s_mb0" \notin Skip) { Mb() };                     \* urcu_wait_add -> cds_wfs_push: cmm_emit_legacy_smp_mb()
 s_push:   Xchg(oldh, "waiters", Wn(self));                       \* old_head = uatomic_xchg(&s->head, new_head)
@@ -229,12 +246,12 @@ w_unl:    Unlock("registry_lock");                               \* mutex_unlock
 wg_ld:    Ld(f, "gp_futex");                                     \* cmm_smp_rmb(); while (uatomic_load(&gp.futex) == -1)
           if (f # -1) { goto w_relock };
 wg_fw:    await Drained(self);                                   \* futex_noasync(&gp.futex, FUTEX_WAIT, -1)
-          if (mem["gp_futex"] # -1) { acc := Ev(self, "fwait", "gp_futex", -1, "-", "EAGAIN"); goto w_relock }
+          if (FutexMode = "compat") { acc := Ev(self, "fwait", "gp_futex", "-", "-", "ENOSYS"); caddr := "gp_futex"; cval := -1; cret := "wg_ld"; goto c_mb }
+          else if (mem["gp_futex"] # -1) { acc := Ev(self, "fwait", "gp_futex", -1, "-", "EAGAIN"); goto w_relock }
           else { sleeping[self] := "gp_futex"; woken[self] := FALSE; acc := Ev(self, "fwait", "gp_futex", -1, "-", "SLEEP") };
-wg_wk:    either { await woken[self]; acc := Ev(self, "fwoke", "gp_futex", "-", "-", "WAKE") }
-          or { await ~woken[self] /\ faults < FaultBudget; faults := faults + 1; acc := Ev(self, "fwoke", "gp_futex", "-", "-", "SPURIOUS") }
-          or { await ~woken[self] /\ faults < FaultBudget; faults := faults + 1; acc := Ev(self, "fwoke", "gp_futex", "-", "-", "EINTR") };
-          sleeping[self] := "none"; woken[self] := FALSE;
+wg_wk:    await woken[self];                                     \* 0 (woken, or spurious): continue; EINTR: break out of the switch; both re-test the word
+          acc := Ev(self, "fwoke", "gp_futex", "-", "-", IF wkind[self] = "none" THEN "WAKE" ELSE wkind[self]);
+          sleeping[self] := "none"; woken[self] := FALSE; wkind[self] := "none";
           goto wg_ld;
 w_relock: Lock("registry_lock");                                 \* mutex_lock(&rcu_registry_lock); next iteration of for (;;)
           wl := NextWl(wl); scan := registry;
@@ -246,14 +263,14 @@ s_out:    Unlock("registry_lock");                               \* cds_list_spl
           registry := qsr \o registry || qsr := <<>>;
 s_gpun:   Unlock("gp_lock");
           it := popped;
-        \* urcu_wake_all_waiters: cds_wfs_for_each_blocking_safe
-k_top:    if (it = END) { goto s_end };
+        \* urcu_wake_all_waiters: cds_wfs_for_each_blocking_safe; at the end gp_end: if (was_online) urcu_qsbr_thread_online() else cmm_smp_mb()
+          if (popped # END) { goto k_next } else if (wasonline) { oret := "s_ret"; goto on_ld } else { goto s_mbx };
 k_next:   assert wnlive[WnOwner(it)];
           Ld(nx, WnNext(it));                                    \* cds_wfs_next_blocking: ___cds_wfs_node_sync_next
           if (nx = NULL) { goto k_next };
 k_ldst:   assert wnlive[WnOwner(it)];
           Ld(st, WnState(it));                                   \* if (uatomic_load(&wait_node->state) & RUNNING) continue
-          if (HasBit(st, RUNNING)) { it := nx; goto k_top };
+          if (HasBit(st, RUNNING)) { it := nx; if (nx # END) { goto k_next } else if (wasonline) { oret := "s_ret"; goto on_ld } else { goto s_mbx } };
 k_as:     assert wnlive[WnOwner(it)];
           Ld(st, WnState(it));                                   \* urcu_adaptative_wake_up: assert(state == WAITING)
           assert st = WAITING;
@@ -262,12 +279,13 @@ k_wk:     assert wnlive[WnOwner(it)];
 k_ld2:    assert wnlive[WnOwner(it)];
           Ld(st, WnState(it));
           if (HasBit(st, RUNNING)) { goto k_or };
-k_fw:     FWake(WnState(it));                                    \* futex_noasync(&wait->state, FUTEX_WAKE, 1)
+k_fw:     if (FutexMode = "compat") { await Drained(self); acc := Ev(self, "fwake", WnState(it), "-", "-", "ENOSYS"); cret := "k_or"; goto c_mb }
+          else { FWake(WnState(it)) };                           \* futex_noasync(&wait->state, FUTEX_WAKE, 1)
 k_or:     assert wnlive[WnOwner(it)];
           await Drained(self);                                   \* uatomic_or_mo(&wait->state, TEARDOWN, RELEASE)
           mem[WnState(it)] := OrBit(mem[WnState(it)], TEARDOWN) ||
           acc := Ev(self, "or", WnState(it), TEARDOWN, "-", OrBit(mem[WnState(it)], TEARDOWN));
-          it := nx; goto k_top;
+          it := nx; if (nx # END) { goto k_next } else if (wasonline) { oret := "s_ret"; goto on_ld } else { goto s_mbx };
 
         \* waiter: urcu_adaptative_busy_wait (the cmm_smp_rmb() is a compiler barrier on x86)
 a_ld1:    Ld(st, WnState(Wn(self)));                             \* for (i < URCU_WAIT_ATTEMPTS) if (state != WAITING) goto skip
@@ -275,12 +293,12 @@ a_ld1:    Ld(st, WnState(Wn(self)));                             \* for (i < URC
 a_ld2:    Ld(st, WnState(Wn(self)));                             \* while (state == WAITING)
           if (st # WAITING) { goto a_or };
 a_fw:     await Drained(self);                                   \* futex_noasync(&wait->state, FUTEX_WAIT, WAITING)
-          if (mem[WnState(Wn(self))] # WAITING) { acc := Ev(self, "fwait", WnState(Wn(self)), WAITING, "-", "EAGAIN"); goto a_or }
+          if (FutexMode = "compat") { acc := Ev(self, "fwait", WnState(Wn(self)), "-", "-", "ENOSYS"); caddr := WnState(Wn(self)); cval := WAITING; cret := "a_ld2"; goto c_mb }
+          else if (mem[WnState(Wn(self))] # WAITING) { acc := Ev(self, "fwait", WnState(Wn(self)), WAITING, "-", "EAGAIN"); goto a_or }
           else { sleeping[self] := WnState(Wn(self)); woken[self] := FALSE; acc := Ev(self, "fwait", WnState(Wn(self)), WAITING, "-", "SLEEP") };
-a_wk:     either { await woken[self]; acc := Ev(self, "fwoke", WnState(Wn(self)), "-", "-", "WAKE") }
-          or { await ~woken[self] /\ faults < FaultBudget; faults := faults + 1; acc := Ev(self, "fwoke", WnState(Wn(self)), "-", "-", "SPURIOUS") }
-          or { await ~woken[self] /\ faults < FaultBudget; faults := faults + 1; acc := Ev(self, "fwoke", WnState(Wn(self)), "-", "-", "EINTR") };
-          sleeping[self] := "none"; woken[self] := FALSE;
+a_wk:     await woken[self];
+          acc := Ev(self, "fwoke", WnState(Wn(self)), "-", "-", IF wkind[self] = "none" THEN "WAKE" ELSE wkind[self]);
+          sleeping[self] := "none"; woken[self] := FALSE; wkind[self] := "none";
           goto a_ld2;
 a_or:     await Drained(self);                                   \* uatomic_or(&wait->state, RUNNING)
           mem[WnState(Wn(self))] := OrBit(mem[WnState(Wn(self))], RUNNING) ||
@@ -292,23 +310,31 @@ a_ld4:    Ld(st, WnState(Wn(self)));                             \* while (!(sta
           if (~HasBit(st, TEARDOWN)) { goto a_ld4 };
 a_ld5:    Ld(st, WnState(Wn(self)));                             \* assert(state & TEARDOWN)
           assert HasBit(st, TEARDOWN);
+          if (wasonline) { oret := "s_ret"; goto on_ld } else { goto s_mbx };                                          \* gp_end
 
-        \* gp_end:
-s_end:    if (wasonline) { oret := "s_ret"; goto on_ld };        \* if (was_online) urcu_qsbr_thread_online()
+        \* ---------------- compat_futex_async() (futex(2) returned ENOSYS): cmm_smp_mb(); WAIT: while (uatomic_load(uaddr) == val) poll(); WAKE: nothing
+c_mb:     Mb();
+          if (cret = "wg_ld" \/ cret = "a_ld2") { goto c_ld } else if (cret = "k_or") { goto k_or } else if (wret = "q_mb") { goto q_mb } else if (oret = "t_ret") { goto t_ret } else if (oret = "x_lock") { goto x_lock } else { goto s_mb0 };
+c_ld:     if (Tracing) { Ld(f, caddr);                           \* recorded executions show every iteration of the polling loop
+                         if (f = cval) { goto c_ld } else if (cret = "wg_ld") { goto wg_ld } else { goto a_ld2 } }
+          else { await Rd(self, caddr) # cval;                   \* model checking: iterations that read val are stuttering; blocked until the word changes
+                 Ld(f, caddr);                                   \* (so that a missing update of the word is a deadlock, not a silent spin)
+                 if (cret = "wg_ld") { goto wg_ld } else { goto a_ld2 } };
+
 s_mbx:    if ("s_mbx" \notin Skip) { Mb() };                     \* else cmm_smp_mb()
 s_ret:    assert pre[self] \cap OpenCS = {};                     \* C01: every pre-existing critical section has ended
           mem[WnNext(Wn(self))] := NULL || mem[WnState(Wn(self))] := 0;   \* the stack wait node dies; next call re-initialises it
           pre[self] := {}; wnlive[self] := FALSE;
 
 t_ret:    if (op.op \in {"reg", "online", "qs"} \/ (op.op = "sync" /\ wasonline)) { cs[self] := i };   \* the call returned: a new implicit section begins
-          i := i + 1;
+          i := i + 1; res := "-";
         };
 t_end:  skip;
 }
 } *)
 \* BEGIN TRANSLATION
-VARIABLES pc, mem, sb, lock, acc, registry, qsr, sleeping, woken, faults, 
-          myctr, alive, cs, pre, departed, wnlive
+VARIABLES pc, mem, sb, lock, acc, registry, qsr, sleeping, woken, wkind, 
+          faults, myctr, alive, cs, pre, departed, wnlive
 
 (* define statement *)
 LastIdx(t, loc) == LET S == {i \in DOMAIN sb[t] : sb[t][i][1] = loc} IN
@@ -320,14 +346,14 @@ OpenCS == {<<t, cs[t]>> : t \in {x \in Threads : cs[x] # 0}}
 Sleepers(loc) == {t \in Threads : sleeping[t] = loc /\ ~woken[t]}
 
 VARIABLES i, op, res, g, f, w, v, held, old, oldh, popped, it, nx, st, wi, wl, 
-          scan, setw, wasonline, oret, wret
+          scan, setw, wasonline, oret, wret, caddr, cval, cret
 
-vars == << pc, mem, sb, lock, acc, registry, qsr, sleeping, woken, faults, 
-           myctr, alive, cs, pre, departed, wnlive, i, op, res, g, f, w, v, 
-           held, old, oldh, popped, it, nx, st, wi, wl, scan, setw, wasonline, 
-           oret, wret >>
+vars == << pc, mem, sb, lock, acc, registry, qsr, sleeping, woken, wkind, 
+           faults, myctr, alive, cs, pre, departed, wnlive, i, op, res, g, f, 
+           w, v, held, old, oldh, popped, it, nx, st, wi, wl, scan, setw, 
+           wasonline, oret, wret, caddr, cval, cret >>
 
-ProcSet == (Flushers) \cup (Threads)
+ProcSet == (Flushers) \cup (Faulters) \cup (Threads)
 
 Init == (* Global variables *)
         /\ mem = [l \in Locs |-> CASE l = "gp_ctr" -> 1 [] l = "gp_futex" -> 0 [] l = "gptr" -> "obj0" [] l = "waiters" -> END
@@ -339,6 +365,7 @@ Init == (* Global variables *)
         /\ qsr = <<>>
         /\ sleeping = [t \in Threads |-> "none"]
         /\ woken = [t \in Threads |-> FALSE]
+        /\ wkind = [t \in Threads |-> "none"]
         /\ faults = 0
         /\ myctr = [t \in Threads |-> 0]
         /\ alive = [o \in Objs |-> TRUE]
@@ -368,7 +395,11 @@ Init == (* Global variables *)
         /\ wasonline = [self \in Threads |-> FALSE]
         /\ oret = [self \in Threads |-> ""]
         /\ wret = [self \in Threads |-> ""]
+        /\ caddr = [self \in Threads |-> "gp_futex"]
+        /\ cval = [self \in Threads |-> 0]
+        /\ cret = [self \in Threads |-> ""]
         /\ pc = [self \in ProcSet |-> CASE self \in Flushers -> "fl"
+                                        [] self \in Faulters -> "fw"
                                         [] self \in Threads -> "t_top"]
 
 fl(self) == /\ pc[self] = "fl"
@@ -378,109 +409,170 @@ fl(self) == /\ pc[self] = "fl"
                /\ mem' = [mem EXCEPT ![Head(sb[FlOf[self]])[1]] = Head(sb[FlOf[self]])[2]]
                /\ sb' = [sb EXCEPT ![FlOf[self]] = Tail(sb[FlOf[self]])]
             /\ pc' = [pc EXCEPT ![self] = "fl"]
-            /\ UNCHANGED << lock, registry, qsr, sleeping, woken, faults, 
-                            myctr, alive, cs, pre, departed, wnlive, i, op, 
-                            res, g, f, w, v, held, old, oldh, popped, it, nx, 
-                            st, wi, wl, scan, setw, wasonline, oret, wret >>
+            /\ UNCHANGED << lock, registry, qsr, sleeping, woken, wkind, 
+                            faults, myctr, alive, cs, pre, departed, wnlive, i, 
+                            op, res, g, f, w, v, held, old, oldh, popped, it, 
+                            nx, st, wi, wl, scan, setw, wasonline, oret, wret, 
+                            caddr, cval, cret >>
 
 flusher(self) == fl(self)
+
+fw(self) == /\ pc[self] = "fw"
+            /\ sleeping[WOf[self]] # "none" /\ ~woken[WOf[self]] /\ faults < FaultBudget
+            /\ \E kind \in {"SPURIOUS", "EINTR"}:
+                 /\ faults' = faults + 1
+                 /\ wkind' = [wkind EXCEPT ![WOf[self]] = kind]
+                 /\ woken' = [woken EXCEPT ![WOf[self]] = TRUE]
+            /\ pc' = [pc EXCEPT ![self] = "fw"]
+            /\ UNCHANGED << mem, sb, lock, acc, registry, qsr, sleeping, myctr, 
+                            alive, cs, pre, departed, wnlive, i, op, res, g, f, 
+                            w, v, held, old, oldh, popped, it, nx, st, wi, wl, 
+                            scan, setw, wasonline, oret, wret, caddr, cval, 
+                            cret >>
+
+faulter(self) == fw(self)
 
 t_top(self) == /\ pc[self] = "t_top"
                /\ IF i[self] <= Len(Prog[self])
                      THEN /\ op' = [op EXCEPT ![self] = Prog[self][i[self]]]
-                          /\ res' = [res EXCEPT ![self] = "-"]
-                          /\ pc' = [pc EXCEPT ![self] = "t_disp"]
+                          /\ IF op'[self].op = "reg"
+                                THEN /\ Assert(myctr[self] = 0, 
+                                               "Failure of assertion at line 132, column 32.")
+                                     /\ departed' = [departed EXCEPT ![self] = FALSE]
+                                     /\ pc' = [pc EXCEPT ![self] = "g_lock"]
+                                     /\ UNCHANGED << alive, cs, pre, wnlive, 
+                                                     res, held, old, wasonline, 
+                                                     oret >>
+                                ELSE /\ IF op'[self].op = "unreg"
+                                           THEN /\ cs' = [cs EXCEPT ![self] = 0]
+                                                /\ held' = [held EXCEPT ![self] = NULL]
+                                                /\ oret' = [oret EXCEPT ![self] = "x_lock"]
+                                                /\ pc' = [pc EXCEPT ![self] = "off_st"]
+                                                /\ UNCHANGED << alive, pre, 
+                                                                wnlive, res, 
+                                                                old, wasonline >>
+                                           ELSE /\ IF op'[self].op = "offline"
+                                                      THEN /\ cs' = [cs EXCEPT ![self] = 0]
+                                                           /\ held' = [held EXCEPT ![self] = NULL]
+                                                           /\ oret' = [oret EXCEPT ![self] = "t_ret"]
+                                                           /\ pc' = [pc EXCEPT ![self] = "off_st"]
+                                                           /\ UNCHANGED << alive, 
+                                                                           pre, 
+                                                                           wnlive, 
+                                                                           res, 
+                                                                           old, 
+                                                                           wasonline >>
+                                                      ELSE /\ IF op'[self].op = "online"
+                                                                 THEN /\ oret' = [oret EXCEPT ![self] = "t_ret"]
+                                                                      /\ pc' = [pc EXCEPT ![self] = "on_ld"]
+                                                                      /\ UNCHANGED << alive, 
+                                                                                      cs, 
+                                                                                      pre, 
+                                                                                      wnlive, 
+                                                                                      res, 
+                                                                                      held, 
+                                                                                      old, 
+                                                                                      wasonline >>
+                                                                 ELSE /\ IF op'[self].op = "qs"
+                                                                            THEN /\ cs' = [cs EXCEPT ![self] = 0]
+                                                                                 /\ held' = [held EXCEPT ![self] = NULL]
+                                                                                 /\ pc' = [pc EXCEPT ![self] = "q_ld"]
+                                                                                 /\ UNCHANGED << alive, 
+                                                                                                 pre, 
+                                                                                                 wnlive, 
+                                                                                                 res, 
+                                                                                                 old, 
+                                                                                                 wasonline, 
+                                                                                                 oret >>
+                                                                            ELSE /\ IF op'[self].op \in {"lock", "unlock"}
+                                                                                       THEN /\ Assert(myctr[self] # 0, 
+                                                                                                      "Failure of assertion at line 137, column 52.")
+                                                                                            /\ pc' = [pc EXCEPT ![self] = "t_ret"]
+                                                                                            /\ UNCHANGED << alive, 
+                                                                                                            cs, 
+                                                                                                            pre, 
+                                                                                                            wnlive, 
+                                                                                                            res, 
+                                                                                                            held, 
+                                                                                                            old, 
+                                                                                                            wasonline, 
+                                                                                                            oret >>
+                                                                                       ELSE /\ IF op'[self].op = "deref"
+                                                                                                  THEN /\ Assert(cs[self] # 0, 
+                                                                                                                 "Failure of assertion at line 138, column 39.")
+                                                                                                       /\ pc' = [pc EXCEPT ![self] = "dr_ld"]
+                                                                                                       /\ UNCHANGED << alive, 
+                                                                                                                       cs, 
+                                                                                                                       pre, 
+                                                                                                                       wnlive, 
+                                                                                                                       res, 
+                                                                                                                       held, 
+                                                                                                                       old, 
+                                                                                                                       wasonline, 
+                                                                                                                       oret >>
+                                                                                                  ELSE /\ IF op'[self].op = "use"
+                                                                                                             THEN /\ Assert(held[self] = NULL \/ alive[held[self]], 
+                                                                                                                            "Failure of assertion at line 139, column 37.")
+                                                                                                                  /\ pc' = [pc EXCEPT ![self] = "t_ret"]
+                                                                                                                  /\ UNCHANGED << alive, 
+                                                                                                                                  cs, 
+                                                                                                                                  pre, 
+                                                                                                                                  wnlive, 
+                                                                                                                                  res, 
+                                                                                                                                  held, 
+                                                                                                                                  old, 
+                                                                                                                                  wasonline, 
+                                                                                                                                  oret >>
+                                                                                                             ELSE /\ IF op'[self].op = "pub"
+                                                                                                                        THEN /\ pc' = [pc EXCEPT ![self] = "p_xchg"]
+                                                                                                                             /\ UNCHANGED << alive, 
+                                                                                                                                             cs, 
+                                                                                                                                             pre, 
+                                                                                                                                             wnlive, 
+                                                                                                                                             res, 
+                                                                                                                                             held, 
+                                                                                                                                             old, 
+                                                                                                                                             wasonline, 
+                                                                                                                                             oret >>
+                                                                                                                        ELSE /\ IF op'[self].op = "sync"
+                                                                                                                                   THEN /\ wasonline' = [wasonline EXCEPT ![self] = myctr[self] # 0]
+                                                                                                                                        /\ pre' = [pre EXCEPT ![self] = OpenCS \ {<<self, cs[self]>>}]
+                                                                                                                                        /\ wnlive' = [wnlive EXCEPT ![self] = TRUE]
+                                                                                                                                        /\ IF myctr[self] # 0
+                                                                                                                                              THEN /\ cs' = [cs EXCEPT ![self] = 0]
+                                                                                                                                                   /\ held' = [held EXCEPT ![self] = NULL]
+                                                                                                                                                   /\ oret' = [oret EXCEPT ![self] = "s_mb0"]
+                                                                                                                                                   /\ pc' = [pc EXCEPT ![self] = "off_st"]
+                                                                                                                                              ELSE /\ pc' = [pc EXCEPT ![self] = "s_mbe"]
+                                                                                                                                                   /\ UNCHANGED << cs, 
+                                                                                                                                                                   held, 
+                                                                                                                                                                   oret >>
+                                                                                                                                        /\ UNCHANGED << alive, 
+                                                                                                                                                        res, 
+                                                                                                                                                        old >>
+                                                                                                                                   ELSE /\ IF old[self] # NULL
+                                                                                                                                              THEN /\ alive' = [alive EXCEPT ![old[self]] = FALSE]
+                                                                                                                                                   /\ res' = [res EXCEPT ![self] = old[self]]
+                                                                                                                                                   /\ old' = [old EXCEPT ![self] = NULL]
+                                                                                                                                              ELSE /\ TRUE
+                                                                                                                                                   /\ UNCHANGED << alive, 
+                                                                                                                                                                   res, 
+                                                                                                                                                                   old >>
+                                                                                                                                        /\ pc' = [pc EXCEPT ![self] = "t_ret"]
+                                                                                                                                        /\ UNCHANGED << cs, 
+                                                                                                                                                        pre, 
+                                                                                                                                                        wnlive, 
+                                                                                                                                                        held, 
+                                                                                                                                                        wasonline, 
+                                                                                                                                                        oret >>
+                                     /\ UNCHANGED departed
                      ELSE /\ pc' = [pc EXCEPT ![self] = "t_end"]
-                          /\ UNCHANGED << op, res >>
+                          /\ UNCHANGED << alive, cs, pre, departed, wnlive, op, 
+                                          res, held, old, wasonline, oret >>
                /\ UNCHANGED << mem, sb, lock, acc, registry, qsr, sleeping, 
-                               woken, faults, myctr, alive, cs, pre, departed, 
-                               wnlive, i, g, f, w, v, held, old, oldh, popped, 
-                               it, nx, st, wi, wl, scan, setw, wasonline, oret, 
-                               wret >>
-
-t_disp(self) == /\ pc[self] = "t_disp"
-                /\ IF op[self].op = "reg"
-                      THEN /\ Assert(myctr[self] = 0, 
-                                     "Failure of assertion at line 117, column 32.")
-                           /\ departed' = [departed EXCEPT ![self] = FALSE]
-                           /\ pc' = [pc EXCEPT ![self] = "g_lock"]
-                           /\ UNCHANGED << alive, cs, res, held, old, oret >>
-                      ELSE /\ IF op[self].op = "unreg"
-                                 THEN /\ cs' = [cs EXCEPT ![self] = 0]
-                                      /\ held' = [held EXCEPT ![self] = NULL]
-                                      /\ oret' = [oret EXCEPT ![self] = "x_lock"]
-                                      /\ pc' = [pc EXCEPT ![self] = "off_st"]
-                                      /\ UNCHANGED << alive, res, old >>
-                                 ELSE /\ IF op[self].op = "offline"
-                                            THEN /\ cs' = [cs EXCEPT ![self] = 0]
-                                                 /\ held' = [held EXCEPT ![self] = NULL]
-                                                 /\ oret' = [oret EXCEPT ![self] = "t_ret"]
-                                                 /\ pc' = [pc EXCEPT ![self] = "off_st"]
-                                                 /\ UNCHANGED << alive, res, 
-                                                                 old >>
-                                            ELSE /\ IF op[self].op = "online"
-                                                       THEN /\ oret' = [oret EXCEPT ![self] = "t_ret"]
-                                                            /\ pc' = [pc EXCEPT ![self] = "on_ld"]
-                                                            /\ UNCHANGED << alive, 
-                                                                            cs, 
-                                                                            res, 
-                                                                            held, 
-                                                                            old >>
-                                                       ELSE /\ IF op[self].op = "qs"
-                                                                  THEN /\ cs' = [cs EXCEPT ![self] = 0]
-                                                                       /\ held' = [held EXCEPT ![self] = NULL]
-                                                                       /\ pc' = [pc EXCEPT ![self] = "q_ld"]
-                                                                       /\ UNCHANGED << alive, 
-                                                                                       res, 
-                                                                                       old >>
-                                                                  ELSE /\ IF op[self].op \in {"lock", "unlock"}
-                                                                             THEN /\ Assert(myctr[self] # 0, 
-                                                                                            "Failure of assertion at line 122, column 52.")
-                                                                                  /\ pc' = [pc EXCEPT ![self] = "t_ret"]
-                                                                                  /\ UNCHANGED << alive, 
-                                                                                                  res, 
-                                                                                                  old >>
-                                                                             ELSE /\ IF op[self].op = "deref"
-                                                                                        THEN /\ Assert(cs[self] # 0, 
-                                                                                                       "Failure of assertion at line 123, column 39.")
-                                                                                             /\ pc' = [pc EXCEPT ![self] = "dr_ld"]
-                                                                                             /\ UNCHANGED << alive, 
-                                                                                                             res, 
-                                                                                                             old >>
-                                                                                        ELSE /\ IF op[self].op = "use"
-                                                                                                   THEN /\ Assert(held[self] = NULL \/ alive[held[self]], 
-                                                                                                                  "Failure of assertion at line 124, column 37.")
-                                                                                                        /\ pc' = [pc EXCEPT ![self] = "t_ret"]
-                                                                                                        /\ UNCHANGED << alive, 
-                                                                                                                        res, 
-                                                                                                                        old >>
-                                                                                                   ELSE /\ IF op[self].op = "pub"
-                                                                                                              THEN /\ pc' = [pc EXCEPT ![self] = "p_xchg"]
-                                                                                                                   /\ UNCHANGED << alive, 
-                                                                                                                                   res, 
-                                                                                                                                   old >>
-                                                                                                              ELSE /\ IF op[self].op = "sync"
-                                                                                                                         THEN /\ pc' = [pc EXCEPT ![self] = "s_call"]
-                                                                                                                              /\ UNCHANGED << alive, 
-                                                                                                                                              res, 
-                                                                                                                                              old >>
-                                                                                                                         ELSE /\ IF old[self] # NULL
-                                                                                                                                    THEN /\ alive' = [alive EXCEPT ![old[self]] = FALSE]
-                                                                                                                                         /\ res' = [res EXCEPT ![self] = old[self]]
-                                                                                                                                         /\ old' = [old EXCEPT ![self] = NULL]
-                                                                                                                                    ELSE /\ TRUE
-                                                                                                                                         /\ UNCHANGED << alive, 
-                                                                                                                                                         res, 
-                                                                                                                                                         old >>
-                                                                                                                              /\ pc' = [pc EXCEPT ![self] = "t_ret"]
-                                                                       /\ UNCHANGED << cs, 
-                                                                                       held >>
-                                                            /\ oret' = oret
-                           /\ UNCHANGED departed
-                /\ UNCHANGED << mem, sb, lock, acc, registry, qsr, sleeping, 
-                                woken, faults, myctr, pre, wnlive, i, op, g, f, 
-                                w, v, oldh, popped, it, nx, st, wi, wl, scan, 
-                                setw, wasonline, wret >>
+                               woken, wkind, faults, myctr, i, g, f, w, v, 
+                               oldh, popped, it, nx, st, wi, wl, scan, setw, 
+                               wret, caddr, cval, cret >>
 
 g_lock(self) == /\ pc[self] = "g_lock"
                 /\ Drained(self) /\ lock["registry_lock"] = "free"
@@ -488,10 +580,11 @@ g_lock(self) == /\ pc[self] = "g_lock"
                 /\ acc' = Ev(self, "lock", "registry_lock", "-", "-", "-")
                 /\ registry' = <<self>> \o registry
                 /\ pc' = [pc EXCEPT ![self] = "g_unl"]
-                /\ UNCHANGED << mem, sb, qsr, sleeping, woken, faults, myctr, 
-                                alive, cs, pre, departed, wnlive, i, op, res, 
-                                g, f, w, v, held, old, oldh, popped, it, nx, 
-                                st, wi, wl, scan, setw, wasonline, oret, wret >>
+                /\ UNCHANGED << mem, sb, qsr, sleeping, woken, wkind, faults, 
+                                myctr, alive, cs, pre, departed, wnlive, i, op, 
+                                res, g, f, w, v, held, old, oldh, popped, it, 
+                                nx, st, wi, wl, scan, setw, wasonline, oret, 
+                                wret, caddr, cval, cret >>
 
 g_unl(self) == /\ pc[self] = "g_unl"
                /\ Drained(self)
@@ -499,10 +592,11 @@ g_unl(self) == /\ pc[self] = "g_unl"
                /\ acc' = Ev(self, "unlock", "registry_lock", "-", "-", "-")
                /\ oret' = [oret EXCEPT ![self] = "t_ret"]
                /\ pc' = [pc EXCEPT ![self] = "on_ld"]
-               /\ UNCHANGED << mem, sb, registry, qsr, sleeping, woken, faults, 
-                               myctr, alive, cs, pre, departed, wnlive, i, op, 
-                               res, g, f, w, v, held, old, oldh, popped, it, 
-                               nx, st, wi, wl, scan, setw, wasonline, wret >>
+               /\ UNCHANGED << mem, sb, registry, qsr, sleeping, woken, wkind, 
+                               faults, myctr, alive, cs, pre, departed, wnlive, 
+                               i, op, res, g, f, w, v, held, old, oldh, popped, 
+                               it, nx, st, wi, wl, scan, setw, wasonline, wret, 
+                               caddr, cval, cret >>
 
 x_lock(self) == /\ pc[self] = "x_lock"
                 /\ Drained(self) /\ lock["registry_lock"] = "free"
@@ -512,21 +606,22 @@ x_lock(self) == /\ pc[self] = "x_lock"
                    /\ registry' = Remove(registry, self)
                 /\ departed' = [departed EXCEPT ![self] = TRUE]
                 /\ pc' = [pc EXCEPT ![self] = "x_unl"]
-                /\ UNCHANGED << mem, sb, sleeping, woken, faults, myctr, alive, 
-                                cs, pre, wnlive, i, op, res, g, f, w, v, held, 
-                                old, oldh, popped, it, nx, st, wi, wl, scan, 
-                                setw, wasonline, oret, wret >>
+                /\ UNCHANGED << mem, sb, sleeping, woken, wkind, faults, myctr, 
+                                alive, cs, pre, wnlive, i, op, res, g, f, w, v, 
+                                held, old, oldh, popped, it, nx, st, wi, wl, 
+                                scan, setw, wasonline, oret, wret, caddr, cval, 
+                                cret >>
 
 x_unl(self) == /\ pc[self] = "x_unl"
                /\ Drained(self)
                /\ lock' = [lock EXCEPT !["registry_lock"] = "free"]
                /\ acc' = Ev(self, "unlock", "registry_lock", "-", "-", "-")
                /\ pc' = [pc EXCEPT ![self] = "t_ret"]
-               /\ UNCHANGED << mem, sb, registry, qsr, sleeping, woken, faults, 
-                               myctr, alive, cs, pre, departed, wnlive, i, op, 
-                               res, g, f, w, v, held, old, oldh, popped, it, 
-                               nx, st, wi, wl, scan, setw, wasonline, oret, 
-                               wret >>
+               /\ UNCHANGED << mem, sb, registry, qsr, sleeping, woken, wkind, 
+                               faults, myctr, alive, cs, pre, departed, wnlive, 
+                               i, op, res, g, f, w, v, held, old, oldh, popped, 
+                               it, nx, st, wi, wl, scan, setw, wasonline, oret, 
+                               wret, caddr, cval, cret >>
 
 q_ld(self) == /\ pc[self] = "q_ld"
               /\ g' = [g EXCEPT ![self] = Rd(self, "gp_ctr")]
@@ -535,10 +630,10 @@ q_ld(self) == /\ pc[self] = "q_ld"
                     THEN /\ pc' = [pc EXCEPT ![self] = "t_ret"]
                     ELSE /\ pc' = [pc EXCEPT ![self] = "q_st"]
               /\ UNCHANGED << mem, sb, lock, registry, qsr, sleeping, woken, 
-                              faults, myctr, alive, cs, pre, departed, wnlive, 
-                              i, op, res, f, w, v, held, old, oldh, popped, it, 
-                              nx, st, wi, wl, scan, setw, wasonline, oret, 
-                              wret >>
+                              wkind, faults, myctr, alive, cs, pre, departed, 
+                              wnlive, i, op, res, f, w, v, held, old, oldh, 
+                              popped, it, nx, st, wi, wl, scan, setw, 
+                              wasonline, oret, wret, caddr, cval, cret >>
 
 q_st(self) == /\ pc[self] = "q_st"
               /\ IF "q_st" \in Weak
@@ -555,10 +650,11 @@ q_st(self) == /\ pc[self] = "q_st"
               /\ myctr' = [myctr EXCEPT ![self] = g[self]]
               /\ wret' = [wret EXCEPT ![self] = "q_mb"]
               /\ pc' = [pc EXCEPT ![self] = "wk_ldw"]
-              /\ UNCHANGED << lock, registry, qsr, sleeping, woken, faults, 
-                              alive, cs, pre, departed, wnlive, i, op, res, g, 
-                              f, w, v, held, old, oldh, popped, it, nx, st, wi, 
-                              wl, scan, setw, wasonline, oret >>
+              /\ UNCHANGED << lock, registry, qsr, sleeping, woken, wkind, 
+                              faults, alive, cs, pre, departed, wnlive, i, op, 
+                              res, g, f, w, v, held, old, oldh, popped, it, nx, 
+                              st, wi, wl, scan, setw, wasonline, oret, caddr, 
+                              cval, cret >>
 
 q_mb(self) == /\ pc[self] = "q_mb"
               /\ IF "q_mb" \notin Skip
@@ -568,10 +664,10 @@ q_mb(self) == /\ pc[self] = "q_mb"
                          /\ acc' = acc
               /\ pc' = [pc EXCEPT ![self] = "t_ret"]
               /\ UNCHANGED << mem, sb, lock, registry, qsr, sleeping, woken, 
-                              faults, myctr, alive, cs, pre, departed, wnlive, 
-                              i, op, res, g, f, w, v, held, old, oldh, popped, 
-                              it, nx, st, wi, wl, scan, setw, wasonline, oret, 
-                              wret >>
+                              wkind, faults, myctr, alive, cs, pre, departed, 
+                              wnlive, i, op, res, g, f, w, v, held, old, oldh, 
+                              popped, it, nx, st, wi, wl, scan, setw, 
+                              wasonline, oret, wret, caddr, cval, cret >>
 
 off_st(self) == /\ pc[self] = "off_st"
                 /\ IF "off_st" \in Weak
@@ -588,20 +684,21 @@ off_st(self) == /\ pc[self] = "off_st"
                 /\ myctr' = [myctr EXCEPT ![self] = 0]
                 /\ wret' = [wret EXCEPT ![self] = "off"]
                 /\ pc' = [pc EXCEPT ![self] = "wk_ldw"]
-                /\ UNCHANGED << lock, registry, qsr, sleeping, woken, faults, 
-                                alive, cs, pre, departed, wnlive, i, op, res, 
-                                g, f, w, v, held, old, oldh, popped, it, nx, 
-                                st, wi, wl, scan, setw, wasonline, oret >>
+                /\ UNCHANGED << lock, registry, qsr, sleeping, woken, wkind, 
+                                faults, alive, cs, pre, departed, wnlive, i, 
+                                op, res, g, f, w, v, held, old, oldh, popped, 
+                                it, nx, st, wi, wl, scan, setw, wasonline, 
+                                oret, caddr, cval, cret >>
 
 on_ld(self) == /\ pc[self] = "on_ld"
                /\ g' = [g EXCEPT ![self] = Rd(self, "gp_ctr")]
                /\ acc' = Ev(self, "ld", "gp_ctr", "-", "-", Rd(self, "gp_ctr"))
                /\ pc' = [pc EXCEPT ![self] = "on_st"]
                /\ UNCHANGED << mem, sb, lock, registry, qsr, sleeping, woken, 
-                               faults, myctr, alive, cs, pre, departed, wnlive, 
-                               i, op, res, f, w, v, held, old, oldh, popped, 
-                               it, nx, st, wi, wl, scan, setw, wasonline, oret, 
-                               wret >>
+                               wkind, faults, myctr, alive, cs, pre, departed, 
+                               wnlive, i, op, res, f, w, v, held, old, oldh, 
+                               popped, it, nx, st, wi, wl, scan, setw, 
+                               wasonline, oret, wret, caddr, cval, cret >>
 
 on_st(self) == /\ pc[self] = "on_st"
                /\ IF TSO
@@ -612,10 +709,11 @@ on_st(self) == /\ pc[self] = "on_st"
                /\ acc' = Ev(self, "st", (Rctr(self)), g[self], "-", "-")
                /\ myctr' = [myctr EXCEPT ![self] = g[self]]
                /\ pc' = [pc EXCEPT ![self] = "on_mb"]
-               /\ UNCHANGED << lock, registry, qsr, sleeping, woken, faults, 
-                               alive, cs, pre, departed, wnlive, i, op, res, g, 
-                               f, w, v, held, old, oldh, popped, it, nx, st, 
-                               wi, wl, scan, setw, wasonline, oret, wret >>
+               /\ UNCHANGED << lock, registry, qsr, sleeping, woken, wkind, 
+                               faults, alive, cs, pre, departed, wnlive, i, op, 
+                               res, g, f, w, v, held, old, oldh, popped, it, 
+                               nx, st, wi, wl, scan, setw, wasonline, oret, 
+                               wret, caddr, cval, cret >>
 
 on_mb(self) == /\ pc[self] = "on_mb"
                /\ IF "on_mb" \notin Skip
@@ -627,22 +725,28 @@ on_mb(self) == /\ pc[self] = "on_mb"
                      THEN /\ pc' = [pc EXCEPT ![self] = "t_ret"]
                      ELSE /\ pc' = [pc EXCEPT ![self] = "s_ret"]
                /\ UNCHANGED << mem, sb, lock, registry, qsr, sleeping, woken, 
-                               faults, myctr, alive, cs, pre, departed, wnlive, 
-                               i, op, res, g, f, w, v, held, old, oldh, popped, 
-                               it, nx, st, wi, wl, scan, setw, wasonline, oret, 
-                               wret >>
+                               wkind, faults, myctr, alive, cs, pre, departed, 
+                               wnlive, i, op, res, g, f, w, v, held, old, oldh, 
+                               popped, it, nx, st, wi, wl, scan, setw, 
+                               wasonline, oret, wret, caddr, cval, cret >>
 
 wk_ldw(self) == /\ pc[self] = "wk_ldw"
                 /\ w' = [w EXCEPT ![self] = Rd(self, (Rwait(self)))]
                 /\ acc' = Ev(self, "ld", (Rwait(self)), "-", "-", Rd(self, (Rwait(self))))
                 /\ IF w'[self] = 0
-                      THEN /\ pc' = [pc EXCEPT ![self] = "wk_ret"]
+                      THEN /\ IF wret[self] = "q_mb"
+                                 THEN /\ pc' = [pc EXCEPT ![self] = "q_mb"]
+                                 ELSE /\ IF oret[self] = "t_ret"
+                                            THEN /\ pc' = [pc EXCEPT ![self] = "t_ret"]
+                                            ELSE /\ IF oret[self] = "x_lock"
+                                                       THEN /\ pc' = [pc EXCEPT ![self] = "x_lock"]
+                                                       ELSE /\ pc' = [pc EXCEPT ![self] = "s_mb0"]
                       ELSE /\ pc' = [pc EXCEPT ![self] = "wk_stw"]
                 /\ UNCHANGED << mem, sb, lock, registry, qsr, sleeping, woken, 
-                                faults, myctr, alive, cs, pre, departed, 
+                                wkind, faults, myctr, alive, cs, pre, departed, 
                                 wnlive, i, op, res, g, f, v, held, old, oldh, 
                                 popped, it, nx, st, wi, wl, scan, setw, 
-                                wasonline, oret, wret >>
+                                wasonline, oret, wret, caddr, cval, cret >>
 
 wk_stw(self) == /\ pc[self] = "wk_stw"
                 /\ IF TSO
@@ -652,11 +756,11 @@ wk_stw(self) == /\ pc[self] = "wk_stw"
                            /\ sb' = sb
                 /\ acc' = Ev(self, "st", (Rwait(self)), 0, "-", "-")
                 /\ pc' = [pc EXCEPT ![self] = "wk_mb"]
-                /\ UNCHANGED << lock, registry, qsr, sleeping, woken, faults, 
-                                myctr, alive, cs, pre, departed, wnlive, i, op, 
-                                res, g, f, w, v, held, old, oldh, popped, it, 
-                                nx, st, wi, wl, scan, setw, wasonline, oret, 
-                                wret >>
+                /\ UNCHANGED << lock, registry, qsr, sleeping, woken, wkind, 
+                                faults, myctr, alive, cs, pre, departed, 
+                                wnlive, i, op, res, g, f, w, v, held, old, 
+                                oldh, popped, it, nx, st, wi, wl, scan, setw, 
+                                wasonline, oret, wret, caddr, cval, cret >>
 
 wk_mb(self) == /\ pc[self] = "wk_mb"
                /\ IF "wk_mb" \notin Skip
@@ -666,22 +770,28 @@ wk_mb(self) == /\ pc[self] = "wk_mb"
                           /\ acc' = acc
                /\ pc' = [pc EXCEPT ![self] = "wk_ldf"]
                /\ UNCHANGED << mem, sb, lock, registry, qsr, sleeping, woken, 
-                               faults, myctr, alive, cs, pre, departed, wnlive, 
-                               i, op, res, g, f, w, v, held, old, oldh, popped, 
-                               it, nx, st, wi, wl, scan, setw, wasonline, oret, 
-                               wret >>
+                               wkind, faults, myctr, alive, cs, pre, departed, 
+                               wnlive, i, op, res, g, f, w, v, held, old, oldh, 
+                               popped, it, nx, st, wi, wl, scan, setw, 
+                               wasonline, oret, wret, caddr, cval, cret >>
 
 wk_ldf(self) == /\ pc[self] = "wk_ldf"
                 /\ f' = [f EXCEPT ![self] = Rd(self, "gp_futex")]
                 /\ acc' = Ev(self, "ld", "gp_futex", "-", "-", Rd(self, "gp_futex"))
                 /\ IF f'[self] # -1
-                      THEN /\ pc' = [pc EXCEPT ![self] = "wk_ret"]
+                      THEN /\ IF wret[self] = "q_mb"
+                                 THEN /\ pc' = [pc EXCEPT ![self] = "q_mb"]
+                                 ELSE /\ IF oret[self] = "t_ret"
+                                            THEN /\ pc' = [pc EXCEPT ![self] = "t_ret"]
+                                            ELSE /\ IF oret[self] = "x_lock"
+                                                       THEN /\ pc' = [pc EXCEPT ![self] = "x_lock"]
+                                                       ELSE /\ pc' = [pc EXCEPT ![self] = "s_mb0"]
                       ELSE /\ pc' = [pc EXCEPT ![self] = "wk_stf"]
                 /\ UNCHANGED << mem, sb, lock, registry, qsr, sleeping, woken, 
-                                faults, myctr, alive, cs, pre, departed, 
+                                wkind, faults, myctr, alive, cs, pre, departed, 
                                 wnlive, i, op, res, g, w, v, held, old, oldh, 
                                 popped, it, nx, st, wi, wl, scan, setw, 
-                                wasonline, oret, wret >>
+                                wasonline, oret, wret, caddr, cval, cret >>
 
 wk_stf(self) == /\ pc[self] = "wk_stf"
                 /\ IF TSO
@@ -691,40 +801,39 @@ wk_stf(self) == /\ pc[self] = "wk_stf"
                            /\ sb' = sb
                 /\ acc' = Ev(self, "st", "gp_futex", 0, "-", "-")
                 /\ pc' = [pc EXCEPT ![self] = "wk_wake"]
-                /\ UNCHANGED << lock, registry, qsr, sleeping, woken, faults, 
-                                myctr, alive, cs, pre, departed, wnlive, i, op, 
-                                res, g, f, w, v, held, old, oldh, popped, it, 
-                                nx, st, wi, wl, scan, setw, wasonline, oret, 
-                                wret >>
+                /\ UNCHANGED << lock, registry, qsr, sleeping, woken, wkind, 
+                                faults, myctr, alive, cs, pre, departed, 
+                                wnlive, i, op, res, g, f, w, v, held, old, 
+                                oldh, popped, it, nx, st, wi, wl, scan, setw, 
+                                wasonline, oret, wret, caddr, cval, cret >>
 
 wk_wake(self) == /\ pc[self] = "wk_wake"
-                 /\ Drained(self)
-                 /\ \E x \in IF Sleepers("gp_futex") = {} THEN {"none"} ELSE Sleepers("gp_futex"):
-                      /\ IF x # "none"
-                            THEN /\ woken' = [woken EXCEPT ![x] = TRUE]
-                            ELSE /\ TRUE
-                                 /\ woken' = woken
-                      /\ acc' = Ev(self, "fwake", "gp_futex", "-", "-", IF x = "none" THEN 0 ELSE 1)
-                 /\ pc' = [pc EXCEPT ![self] = "wk_ret"]
-                 /\ UNCHANGED << mem, sb, lock, registry, qsr, sleeping, 
+                 /\ IF FutexMode = "compat"
+                       THEN /\ Drained(self)
+                            /\ acc' = Ev(self, "fwake", "gp_futex", "-", "-", "ENOSYS")
+                            /\ cret' = [cret EXCEPT ![self] = "wk"]
+                            /\ pc' = [pc EXCEPT ![self] = "c_mb"]
+                            /\ woken' = woken
+                       ELSE /\ Drained(self)
+                            /\ \E x \in IF Sleepers("gp_futex") = {} THEN {"none"} ELSE Sleepers("gp_futex"):
+                                 /\ IF x # "none"
+                                       THEN /\ woken' = [woken EXCEPT ![x] = TRUE]
+                                       ELSE /\ TRUE
+                                            /\ woken' = woken
+                                 /\ acc' = Ev(self, "fwake", "gp_futex", "-", "-", IF x = "none" THEN 0 ELSE 1)
+                            /\ IF wret[self] = "q_mb"
+                                  THEN /\ pc' = [pc EXCEPT ![self] = "q_mb"]
+                                  ELSE /\ IF oret[self] = "t_ret"
+                                             THEN /\ pc' = [pc EXCEPT ![self] = "t_ret"]
+                                             ELSE /\ IF oret[self] = "x_lock"
+                                                        THEN /\ pc' = [pc EXCEPT ![self] = "x_lock"]
+                                                        ELSE /\ pc' = [pc EXCEPT ![self] = "s_mb0"]
+                            /\ cret' = cret
+                 /\ UNCHANGED << mem, sb, lock, registry, qsr, sleeping, wkind, 
                                  faults, myctr, alive, cs, pre, departed, 
                                  wnlive, i, op, res, g, f, w, v, held, old, 
                                  oldh, popped, it, nx, st, wi, wl, scan, setw, 
-                                 wasonline, oret, wret >>
-
-wk_ret(self) == /\ pc[self] = "wk_ret"
-                /\ IF wret[self] = "q_mb"
-                      THEN /\ pc' = [pc EXCEPT ![self] = "q_mb"]
-                      ELSE /\ IF oret[self] = "t_ret"
-                                 THEN /\ pc' = [pc EXCEPT ![self] = "t_ret"]
-                                 ELSE /\ IF oret[self] = "x_lock"
-                                            THEN /\ pc' = [pc EXCEPT ![self] = "x_lock"]
-                                            ELSE /\ pc' = [pc EXCEPT ![self] = "s_mb0"]
-                /\ UNCHANGED << mem, sb, lock, acc, registry, qsr, sleeping, 
-                                woken, faults, myctr, alive, cs, pre, departed, 
-                                wnlive, i, op, res, g, f, w, v, held, old, 
-                                oldh, popped, it, nx, st, wi, wl, scan, setw, 
-                                wasonline, oret, wret >>
+                                 wasonline, oret, wret, caddr, cval >>
 
 dr_ld(self) == /\ pc[self] = "dr_ld"
                /\ held' = [held EXCEPT ![self] = Rd(self, "gptr")]
@@ -732,9 +841,10 @@ dr_ld(self) == /\ pc[self] = "dr_ld"
                /\ res' = [res EXCEPT ![self] = held'[self]]
                /\ pc' = [pc EXCEPT ![self] = "t_ret"]
                /\ UNCHANGED << mem, sb, lock, registry, qsr, sleeping, woken, 
-                               faults, myctr, alive, cs, pre, departed, wnlive, 
-                               i, op, g, f, w, v, old, oldh, popped, it, nx, 
-                               st, wi, wl, scan, setw, wasonline, oret, wret >>
+                               wkind, faults, myctr, alive, cs, pre, departed, 
+                               wnlive, i, op, g, f, w, v, old, oldh, popped, 
+                               it, nx, st, wi, wl, scan, setw, wasonline, oret, 
+                               wret, caddr, cval, cret >>
 
 p_xchg(self) == /\ pc[self] = "p_xchg"
                 /\ Drained(self)
@@ -744,26 +854,10 @@ p_xchg(self) == /\ pc[self] = "p_xchg"
                 /\ res' = [res EXCEPT ![self] = old'[self]]
                 /\ pc' = [pc EXCEPT ![self] = "t_ret"]
                 /\ UNCHANGED << sb, lock, registry, qsr, sleeping, woken, 
-                                faults, myctr, alive, cs, pre, departed, 
+                                wkind, faults, myctr, alive, cs, pre, departed, 
                                 wnlive, i, op, g, f, w, v, held, oldh, popped, 
                                 it, nx, st, wi, wl, scan, setw, wasonline, 
-                                oret, wret >>
-
-s_call(self) == /\ pc[self] = "s_call"
-                /\ wasonline' = [wasonline EXCEPT ![self] = myctr[self] # 0]
-                /\ pre' = [pre EXCEPT ![self] = OpenCS \ {<<self, cs[self]>>}]
-                /\ wnlive' = [wnlive EXCEPT ![self] = TRUE]
-                /\ IF myctr[self] # 0
-                      THEN /\ cs' = [cs EXCEPT ![self] = 0]
-                           /\ held' = [held EXCEPT ![self] = NULL]
-                           /\ oret' = [oret EXCEPT ![self] = "s_mb0"]
-                           /\ pc' = [pc EXCEPT ![self] = "off_st"]
-                      ELSE /\ pc' = [pc EXCEPT ![self] = "s_mbe"]
-                           /\ UNCHANGED << cs, held, oret >>
-                /\ UNCHANGED << mem, sb, lock, acc, registry, qsr, sleeping, 
-                                woken, faults, myctr, alive, departed, i, op, 
-                                res, g, f, w, v, old, oldh, popped, it, nx, st, 
-                                wi, wl, scan, setw, wret >>
+                                oret, wret, caddr, cval, cret >>
 
 s_mbe(self) == /\ pc[self] = "s_mbe"
                /\ IF "s_mbe" \notin Skip
@@ -773,10 +867,10 @@ s_mbe(self) == /\ pc[self] = "s_mbe"
                           /\ acc' = acc
                /\ pc' = [pc EXCEPT ![self] = "s_mb0"]
                /\ UNCHANGED << mem, sb, lock, registry, qsr, sleeping, woken, 
-                               faults, myctr, alive, cs, pre, departed, wnlive, 
-                               i, op, res, g, f, w, v, held, old, oldh, popped, 
-                               it, nx, st, wi, wl, scan, setw, wasonline, oret, 
-                               wret >>
+                               wkind, faults, myctr, alive, cs, pre, departed, 
+                               wnlive, i, op, res, g, f, w, v, held, old, oldh, 
+                               popped, it, nx, st, wi, wl, scan, setw, 
+                               wasonline, oret, wret, caddr, cval, cret >>
 
 s_mb0(self) == /\ pc[self] = "s_mb0"
                /\ IF "s_mb0" \notin Skip
@@ -786,10 +880,10 @@ s_mb0(self) == /\ pc[self] = "s_mb0"
                           /\ acc' = acc
                /\ pc' = [pc EXCEPT ![self] = "s_push"]
                /\ UNCHANGED << mem, sb, lock, registry, qsr, sleeping, woken, 
-                               faults, myctr, alive, cs, pre, departed, wnlive, 
-                               i, op, res, g, f, w, v, held, old, oldh, popped, 
-                               it, nx, st, wi, wl, scan, setw, wasonline, oret, 
-                               wret >>
+                               wkind, faults, myctr, alive, cs, pre, departed, 
+                               wnlive, i, op, res, g, f, w, v, held, old, oldh, 
+                               popped, it, nx, st, wi, wl, scan, setw, 
+                               wasonline, oret, wret, caddr, cval, cret >>
 
 s_push(self) == /\ pc[self] = "s_push"
                 /\ Drained(self)
@@ -798,10 +892,10 @@ s_push(self) == /\ pc[self] = "s_push"
                 /\ acc' = Ev(self, "xchg", "waiters", (Wn(self)), "-", oldh'[self])
                 /\ pc' = [pc EXCEPT ![self] = "s_link"]
                 /\ UNCHANGED << sb, lock, registry, qsr, sleeping, woken, 
-                                faults, myctr, alive, cs, pre, departed, 
+                                wkind, faults, myctr, alive, cs, pre, departed, 
                                 wnlive, i, op, res, g, f, w, v, held, old, 
                                 popped, it, nx, st, wi, wl, scan, setw, 
-                                wasonline, oret, wret >>
+                                wasonline, oret, wret, caddr, cval, cret >>
 
 s_link(self) == /\ pc[self] = "s_link"
                 /\ IF TSO
@@ -815,10 +909,11 @@ s_link(self) == /\ pc[self] = "s_link"
                            /\ pc' = [pc EXCEPT ![self] = "a_ld1"]
                       ELSE /\ pc' = [pc EXCEPT ![self] = "s_run"]
                            /\ wi' = wi
-                /\ UNCHANGED << lock, registry, qsr, sleeping, woken, faults, 
-                                myctr, alive, cs, pre, departed, wnlive, i, op, 
-                                res, g, f, w, v, held, old, oldh, popped, it, 
-                                nx, st, wl, scan, setw, wasonline, oret, wret >>
+                /\ UNCHANGED << lock, registry, qsr, sleeping, woken, wkind, 
+                                faults, myctr, alive, cs, pre, departed, 
+                                wnlive, i, op, res, g, f, w, v, held, old, 
+                                oldh, popped, it, nx, st, wl, scan, setw, 
+                                wasonline, oret, wret, caddr, cval, cret >>
 
 s_run(self) == /\ pc[self] = "s_run"
                /\ IF Tracing \/ ~TSO
@@ -829,21 +924,21 @@ s_run(self) == /\ pc[self] = "s_run"
                           /\ mem' = mem
                /\ pc' = [pc EXCEPT ![self] = "s_gplk"]
                /\ UNCHANGED << lock, acc, registry, qsr, sleeping, woken, 
-                               faults, myctr, alive, cs, pre, departed, wnlive, 
-                               i, op, res, g, f, w, v, held, old, oldh, popped, 
-                               it, nx, st, wi, wl, scan, setw, wasonline, oret, 
-                               wret >>
+                               wkind, faults, myctr, alive, cs, pre, departed, 
+                               wnlive, i, op, res, g, f, w, v, held, old, oldh, 
+                               popped, it, nx, st, wi, wl, scan, setw, 
+                               wasonline, oret, wret, caddr, cval, cret >>
 
 s_gplk(self) == /\ pc[self] = "s_gplk"
                 /\ Drained(self) /\ lock["gp_lock"] = "free"
                 /\ lock' = [lock EXCEPT !["gp_lock"] = self]
                 /\ acc' = Ev(self, "lock", "gp_lock", "-", "-", "-")
                 /\ pc' = [pc EXCEPT ![self] = "s_pop"]
-                /\ UNCHANGED << mem, sb, registry, qsr, sleeping, woken, 
+                /\ UNCHANGED << mem, sb, registry, qsr, sleeping, woken, wkind, 
                                 faults, myctr, alive, cs, pre, departed, 
                                 wnlive, i, op, res, g, f, w, v, held, old, 
                                 oldh, popped, it, nx, st, wi, wl, scan, setw, 
-                                wasonline, oret, wret >>
+                                wasonline, oret, wret, caddr, cval, cret >>
 
 s_pop(self) == /\ pc[self] = "s_pop"
                /\ Drained(self)
@@ -851,10 +946,11 @@ s_pop(self) == /\ pc[self] = "s_pop"
                /\ mem' = [mem EXCEPT !["waiters"] = END]
                /\ acc' = Ev(self, "xchg", "waiters", END, "-", popped'[self])
                /\ pc' = [pc EXCEPT ![self] = "s_popmb"]
-               /\ UNCHANGED << sb, lock, registry, qsr, sleeping, woken, 
+               /\ UNCHANGED << sb, lock, registry, qsr, sleeping, woken, wkind, 
                                faults, myctr, alive, cs, pre, departed, wnlive, 
                                i, op, res, g, f, w, v, held, old, oldh, it, nx, 
-                               st, wi, wl, scan, setw, wasonline, oret, wret >>
+                               st, wi, wl, scan, setw, wasonline, oret, wret, 
+                               caddr, cval, cret >>
 
 s_popmb(self) == /\ pc[self] = "s_popmb"
                  /\ IF "s_popmb" \notin Skip
@@ -864,10 +960,11 @@ s_popmb(self) == /\ pc[self] = "s_popmb"
                             /\ acc' = acc
                  /\ pc' = [pc EXCEPT ![self] = "s_rglk"]
                  /\ UNCHANGED << mem, sb, lock, registry, qsr, sleeping, woken, 
-                                 faults, myctr, alive, cs, pre, departed, 
-                                 wnlive, i, op, res, g, f, w, v, held, old, 
-                                 oldh, popped, it, nx, st, wi, wl, scan, setw, 
-                                 wasonline, oret, wret >>
+                                 wkind, faults, myctr, alive, cs, pre, 
+                                 departed, wnlive, i, op, res, g, f, w, v, 
+                                 held, old, oldh, popped, it, nx, st, wi, wl, 
+                                 scan, setw, wasonline, oret, wret, caddr, 
+                                 cval, cret >>
 
 s_rglk(self) == /\ pc[self] = "s_rglk"
                 /\ Drained(self) /\ lock["registry_lock"] = "free"
@@ -876,11 +973,11 @@ s_rglk(self) == /\ pc[self] = "s_rglk"
                 /\ IF registry = <<>>
                       THEN /\ pc' = [pc EXCEPT ![self] = "s_out"]
                       ELSE /\ pc' = [pc EXCEPT ![self] = "s_inc"]
-                /\ UNCHANGED << mem, sb, registry, qsr, sleeping, woken, 
+                /\ UNCHANGED << mem, sb, registry, qsr, sleeping, woken, wkind, 
                                 faults, myctr, alive, cs, pre, departed, 
                                 wnlive, i, op, res, g, f, w, v, held, old, 
                                 oldh, popped, it, nx, st, wi, wl, scan, setw, 
-                                wasonline, oret, wret >>
+                                wasonline, oret, wret, caddr, cval, cret >>
 
 s_inc(self) == /\ pc[self] = "s_inc"
                /\ IF TSO
@@ -890,11 +987,11 @@ s_inc(self) == /\ pc[self] = "s_inc"
                           /\ sb' = sb
                /\ acc' = Ev(self, "st", "gp_ctr", (Rd(self, "gp_ctr") + GP_CTR), "-", "-")
                /\ pc' = [pc EXCEPT ![self] = "s_mb1"]
-               /\ UNCHANGED << lock, registry, qsr, sleeping, woken, faults, 
-                               myctr, alive, cs, pre, departed, wnlive, i, op, 
-                               res, g, f, w, v, held, old, oldh, popped, it, 
-                               nx, st, wi, wl, scan, setw, wasonline, oret, 
-                               wret >>
+               /\ UNCHANGED << lock, registry, qsr, sleeping, woken, wkind, 
+                               faults, myctr, alive, cs, pre, departed, wnlive, 
+                               i, op, res, g, f, w, v, held, old, oldh, popped, 
+                               it, nx, st, wi, wl, scan, setw, wasonline, oret, 
+                               wret, caddr, cval, cret >>
 
 s_mb1(self) == /\ pc[self] = "s_mb1"
                /\ IF "s_mb1" \notin Skip
@@ -908,9 +1005,10 @@ s_mb1(self) == /\ pc[self] = "s_mb1"
                      THEN /\ pc' = [pc EXCEPT ![self] = "w_stf"]
                      ELSE /\ pc' = [pc EXCEPT ![self] = "w_ldr"]
                /\ UNCHANGED << mem, sb, lock, registry, qsr, sleeping, woken, 
-                               faults, myctr, alive, cs, pre, departed, wnlive, 
-                               i, op, res, g, f, w, v, held, old, oldh, popped, 
-                               it, nx, st, wi, setw, wasonline, oret, wret >>
+                               wkind, faults, myctr, alive, cs, pre, departed, 
+                               wnlive, i, op, res, g, f, w, v, held, old, oldh, 
+                               popped, it, nx, st, wi, setw, wasonline, oret, 
+                               wret, caddr, cval, cret >>
 
 w_stf(self) == /\ pc[self] = "w_stf"
                /\ IF TSO
@@ -923,14 +1021,15 @@ w_stf(self) == /\ pc[self] = "w_stf"
                /\ IF registry = <<>>
                      THEN /\ pc' = [pc EXCEPT ![self] = "w_mb"]
                      ELSE /\ pc' = [pc EXCEPT ![self] = "w_stw"]
-               /\ UNCHANGED << lock, registry, qsr, sleeping, woken, faults, 
-                               myctr, alive, cs, pre, departed, wnlive, i, op, 
-                               res, g, f, w, v, held, old, oldh, popped, it, 
-                               nx, st, wi, wl, scan, wasonline, oret, wret >>
+               /\ UNCHANGED << lock, registry, qsr, sleeping, woken, wkind, 
+                               faults, myctr, alive, cs, pre, departed, wnlive, 
+                               i, op, res, g, f, w, v, held, old, oldh, popped, 
+                               it, nx, st, wi, wl, scan, wasonline, oret, wret, 
+                               caddr, cval, cret >>
 
 w_stw(self) == /\ pc[self] = "w_stw"
                /\ Assert(~departed[Head(setw[self])], 
-                         "Failure of assertion at line 206, column 11.")
+                         "Failure of assertion at line 223, column 11.")
                /\ IF TSO
                      THEN /\ sb' = [sb EXCEPT ![self] = Append(sb[self], <<(Rwait(Head(setw[self]))), 1>>)]
                           /\ mem' = mem
@@ -941,10 +1040,11 @@ w_stw(self) == /\ pc[self] = "w_stw"
                /\ IF setw'[self] # <<>>
                      THEN /\ pc' = [pc EXCEPT ![self] = "w_stw"]
                      ELSE /\ pc' = [pc EXCEPT ![self] = "w_mb"]
-               /\ UNCHANGED << lock, registry, qsr, sleeping, woken, faults, 
-                               myctr, alive, cs, pre, departed, wnlive, i, op, 
-                               res, g, f, w, v, held, old, oldh, popped, it, 
-                               nx, st, wi, wl, scan, wasonline, oret, wret >>
+               /\ UNCHANGED << lock, registry, qsr, sleeping, woken, wkind, 
+                               faults, myctr, alive, cs, pre, departed, wnlive, 
+                               i, op, res, g, f, w, v, held, old, oldh, popped, 
+                               it, nx, st, wi, wl, scan, wasonline, oret, wret, 
+                               caddr, cval, cret >>
 
 w_mb(self) == /\ pc[self] = "w_mb"
               /\ IF "w_mb" \notin Skip
@@ -957,13 +1057,14 @@ w_mb(self) == /\ pc[self] = "w_mb"
                     THEN /\ pc' = [pc EXCEPT ![self] = "w_st0"]
                     ELSE /\ pc' = [pc EXCEPT ![self] = "w_ldr"]
               /\ UNCHANGED << mem, sb, lock, registry, qsr, sleeping, woken, 
-                              faults, myctr, alive, cs, pre, departed, wnlive, 
-                              i, op, res, g, f, w, v, held, old, oldh, popped, 
-                              it, nx, st, wi, wl, setw, wasonline, oret, wret >>
+                              wkind, faults, myctr, alive, cs, pre, departed, 
+                              wnlive, i, op, res, g, f, w, v, held, old, oldh, 
+                              popped, it, nx, st, wi, wl, setw, wasonline, 
+                              oret, wret, caddr, cval, cret >>
 
 w_ldr(self) == /\ pc[self] = "w_ldr"
                /\ Assert(~departed[Head(scan[self])], 
-                         "Failure of assertion at line 213, column 11.")
+                         "Failure of assertion at line 230, column 11.")
                /\ v' = [v EXCEPT ![self] = Rd(self, Rctr(Head(scan[self])))]
                /\ acc' = Ev(self, "ld", Rctr(Head(scan[self])), "-", "-", Rd(self, Rctr(Head(scan[self]))))
                /\ IF Rd(self, Rctr(Head(scan[self]))) = 0 \/ Rd(self, Rctr(Head(scan[self]))) = Rd(self, "gp_ctr")
@@ -979,10 +1080,11 @@ w_ldr(self) == /\ pc[self] = "w_ldr"
                                 ELSE /\ IF wl[self] >= QSAttempts
                                            THEN /\ pc' = [pc EXCEPT ![self] = "w_st0"]
                                            ELSE /\ pc' = [pc EXCEPT ![self] = "s_out"]
-               /\ UNCHANGED << mem, sb, lock, sleeping, woken, faults, myctr, 
-                               alive, cs, pre, departed, wnlive, i, op, res, g, 
-                               f, w, held, old, oldh, popped, it, nx, st, wi, 
-                               wl, setw, wasonline, oret, wret >>
+               /\ UNCHANGED << mem, sb, lock, sleeping, woken, wkind, faults, 
+                               myctr, alive, cs, pre, departed, wnlive, i, op, 
+                               res, g, f, w, held, old, oldh, popped, it, nx, 
+                               st, wi, wl, setw, wasonline, oret, wret, caddr, 
+                               cval, cret >>
 
 w_st0(self) == /\ pc[self] = "w_st0"
                /\ IF TSO
@@ -992,11 +1094,11 @@ w_st0(self) == /\ pc[self] = "w_st0"
                           /\ sb' = sb
                /\ acc' = Ev(self, "st", "gp_futex", 0, "-", "-")
                /\ pc' = [pc EXCEPT ![self] = "s_out"]
-               /\ UNCHANGED << lock, registry, qsr, sleeping, woken, faults, 
-                               myctr, alive, cs, pre, departed, wnlive, i, op, 
-                               res, g, f, w, v, held, old, oldh, popped, it, 
-                               nx, st, wi, wl, scan, setw, wasonline, oret, 
-                               wret >>
+               /\ UNCHANGED << lock, registry, qsr, sleeping, woken, wkind, 
+                               faults, myctr, alive, cs, pre, departed, wnlive, 
+                               i, op, res, g, f, w, v, held, old, oldh, popped, 
+                               it, nx, st, wi, wl, scan, setw, wasonline, oret, 
+                               wret, caddr, cval, cret >>
 
 w_unl(self) == /\ pc[self] = "w_unl"
                /\ Drained(self)
@@ -1005,11 +1107,11 @@ w_unl(self) == /\ pc[self] = "w_unl"
                /\ IF wl[self] < QSAttempts
                      THEN /\ pc' = [pc EXCEPT ![self] = "w_relock"]
                      ELSE /\ pc' = [pc EXCEPT ![self] = "wg_ld"]
-               /\ UNCHANGED << mem, sb, registry, qsr, sleeping, woken, faults, 
-                               myctr, alive, cs, pre, departed, wnlive, i, op, 
-                               res, g, f, w, v, held, old, oldh, popped, it, 
-                               nx, st, wi, wl, scan, setw, wasonline, oret, 
-                               wret >>
+               /\ UNCHANGED << mem, sb, registry, qsr, sleeping, woken, wkind, 
+                               faults, myctr, alive, cs, pre, departed, wnlive, 
+                               i, op, res, g, f, w, v, held, old, oldh, popped, 
+                               it, nx, st, wi, wl, scan, setw, wasonline, oret, 
+                               wret, caddr, cval, cret >>
 
 wg_ld(self) == /\ pc[self] = "wg_ld"
                /\ f' = [f EXCEPT ![self] = Rd(self, "gp_futex")]
@@ -1018,43 +1120,47 @@ wg_ld(self) == /\ pc[self] = "wg_ld"
                      THEN /\ pc' = [pc EXCEPT ![self] = "w_relock"]
                      ELSE /\ pc' = [pc EXCEPT ![self] = "wg_fw"]
                /\ UNCHANGED << mem, sb, lock, registry, qsr, sleeping, woken, 
-                               faults, myctr, alive, cs, pre, departed, wnlive, 
-                               i, op, res, g, w, v, held, old, oldh, popped, 
-                               it, nx, st, wi, wl, scan, setw, wasonline, oret, 
-                               wret >>
+                               wkind, faults, myctr, alive, cs, pre, departed, 
+                               wnlive, i, op, res, g, w, v, held, old, oldh, 
+                               popped, it, nx, st, wi, wl, scan, setw, 
+                               wasonline, oret, wret, caddr, cval, cret >>
 
 wg_fw(self) == /\ pc[self] = "wg_fw"
                /\ Drained(self)
-               /\ IF mem["gp_futex"] # -1
-                     THEN /\ acc' = Ev(self, "fwait", "gp_futex", -1, "-", "EAGAIN")
-                          /\ pc' = [pc EXCEPT ![self] = "w_relock"]
+               /\ IF FutexMode = "compat"
+                     THEN /\ acc' = Ev(self, "fwait", "gp_futex", "-", "-", "ENOSYS")
+                          /\ caddr' = [caddr EXCEPT ![self] = "gp_futex"]
+                          /\ cval' = [cval EXCEPT ![self] = -1]
+                          /\ cret' = [cret EXCEPT ![self] = "wg_ld"]
+                          /\ pc' = [pc EXCEPT ![self] = "c_mb"]
                           /\ UNCHANGED << sleeping, woken >>
-                     ELSE /\ sleeping' = [sleeping EXCEPT ![self] = "gp_futex"]
-                          /\ woken' = [woken EXCEPT ![self] = FALSE]
-                          /\ acc' = Ev(self, "fwait", "gp_futex", -1, "-", "SLEEP")
-                          /\ pc' = [pc EXCEPT ![self] = "wg_wk"]
+                     ELSE /\ IF mem["gp_futex"] # -1
+                                THEN /\ acc' = Ev(self, "fwait", "gp_futex", -1, "-", "EAGAIN")
+                                     /\ pc' = [pc EXCEPT ![self] = "w_relock"]
+                                     /\ UNCHANGED << sleeping, woken >>
+                                ELSE /\ sleeping' = [sleeping EXCEPT ![self] = "gp_futex"]
+                                     /\ woken' = [woken EXCEPT ![self] = FALSE]
+                                     /\ acc' = Ev(self, "fwait", "gp_futex", -1, "-", "SLEEP")
+                                     /\ pc' = [pc EXCEPT ![self] = "wg_wk"]
+                          /\ UNCHANGED << caddr, cval, cret >>
+               /\ UNCHANGED << mem, sb, lock, registry, qsr, wkind, faults, 
+                               myctr, alive, cs, pre, departed, wnlive, i, op, 
+                               res, g, f, w, v, held, old, oldh, popped, it, 
+                               nx, st, wi, wl, scan, setw, wasonline, oret, 
+                               wret >>
+
+wg_wk(self) == /\ pc[self] = "wg_wk"
+               /\ woken[self]
+               /\ acc' = Ev(self, "fwoke", "gp_futex", "-", "-", IF wkind[self] = "none" THEN "WAKE" ELSE wkind[self])
+               /\ sleeping' = [sleeping EXCEPT ![self] = "none"]
+               /\ woken' = [woken EXCEPT ![self] = FALSE]
+               /\ wkind' = [wkind EXCEPT ![self] = "none"]
+               /\ pc' = [pc EXCEPT ![self] = "wg_ld"]
                /\ UNCHANGED << mem, sb, lock, registry, qsr, faults, myctr, 
                                alive, cs, pre, departed, wnlive, i, op, res, g, 
                                f, w, v, held, old, oldh, popped, it, nx, st, 
-                               wi, wl, scan, setw, wasonline, oret, wret >>
-
-wg_wk(self) == /\ pc[self] = "wg_wk"
-               /\ \/ /\ woken[self]
-                     /\ acc' = Ev(self, "fwoke", "gp_futex", "-", "-", "WAKE")
-                     /\ UNCHANGED faults
-                  \/ /\ ~woken[self] /\ faults < FaultBudget
-                     /\ faults' = faults + 1
-                     /\ acc' = Ev(self, "fwoke", "gp_futex", "-", "-", "SPURIOUS")
-                  \/ /\ ~woken[self] /\ faults < FaultBudget
-                     /\ faults' = faults + 1
-                     /\ acc' = Ev(self, "fwoke", "gp_futex", "-", "-", "EINTR")
-               /\ sleeping' = [sleeping EXCEPT ![self] = "none"]
-               /\ woken' = [woken EXCEPT ![self] = FALSE]
-               /\ pc' = [pc EXCEPT ![self] = "wg_ld"]
-               /\ UNCHANGED << mem, sb, lock, registry, qsr, myctr, alive, cs, 
-                               pre, departed, wnlive, i, op, res, g, f, w, v, 
-                               held, old, oldh, popped, it, nx, st, wi, wl, 
-                               scan, setw, wasonline, oret, wret >>
+                               wi, wl, scan, setw, wasonline, oret, wret, 
+                               caddr, cval, cret >>
 
 w_relock(self) == /\ pc[self] = "w_relock"
                   /\ Drained(self) /\ lock["registry_lock"] = "free"
@@ -1068,10 +1174,11 @@ w_relock(self) == /\ pc[self] = "w_relock"
                                    THEN /\ pc' = [pc EXCEPT ![self] = "s_out"]
                                    ELSE /\ pc' = [pc EXCEPT ![self] = "w_ldr"]
                   /\ UNCHANGED << mem, sb, registry, qsr, sleeping, woken, 
-                                  faults, myctr, alive, cs, pre, departed, 
-                                  wnlive, i, op, res, g, f, w, v, held, old, 
-                                  oldh, popped, it, nx, st, wi, setw, 
-                                  wasonline, oret, wret >>
+                                  wkind, faults, myctr, alive, cs, pre, 
+                                  departed, wnlive, i, op, res, g, f, w, v, 
+                                  held, old, oldh, popped, it, nx, st, wi, 
+                                  setw, wasonline, oret, wret, caddr, cval, 
+                                  cret >>
 
 s_out(self) == /\ pc[self] = "s_out"
                /\ Drained(self)
@@ -1080,80 +1187,85 @@ s_out(self) == /\ pc[self] = "s_out"
                /\ /\ qsr' = <<>>
                   /\ registry' = qsr \o registry
                /\ pc' = [pc EXCEPT ![self] = "s_gpun"]
-               /\ UNCHANGED << mem, sb, sleeping, woken, faults, myctr, alive, 
-                               cs, pre, departed, wnlive, i, op, res, g, f, w, 
-                               v, held, old, oldh, popped, it, nx, st, wi, wl, 
-                               scan, setw, wasonline, oret, wret >>
+               /\ UNCHANGED << mem, sb, sleeping, woken, wkind, faults, myctr, 
+                               alive, cs, pre, departed, wnlive, i, op, res, g, 
+                               f, w, v, held, old, oldh, popped, it, nx, st, 
+                               wi, wl, scan, setw, wasonline, oret, wret, 
+                               caddr, cval, cret >>
 
 s_gpun(self) == /\ pc[self] = "s_gpun"
                 /\ Drained(self)
                 /\ lock' = [lock EXCEPT !["gp_lock"] = "free"]
                 /\ acc' = Ev(self, "unlock", "gp_lock", "-", "-", "-")
                 /\ it' = [it EXCEPT ![self] = popped[self]]
-                /\ pc' = [pc EXCEPT ![self] = "k_top"]
-                /\ UNCHANGED << mem, sb, registry, qsr, sleeping, woken, 
+                /\ IF popped[self] # END
+                      THEN /\ pc' = [pc EXCEPT ![self] = "k_next"]
+                           /\ oret' = oret
+                      ELSE /\ IF wasonline[self]
+                                 THEN /\ oret' = [oret EXCEPT ![self] = "s_ret"]
+                                      /\ pc' = [pc EXCEPT ![self] = "on_ld"]
+                                 ELSE /\ pc' = [pc EXCEPT ![self] = "s_mbx"]
+                                      /\ oret' = oret
+                /\ UNCHANGED << mem, sb, registry, qsr, sleeping, woken, wkind, 
                                 faults, myctr, alive, cs, pre, departed, 
                                 wnlive, i, op, res, g, f, w, v, held, old, 
                                 oldh, popped, nx, st, wi, wl, scan, setw, 
-                                wasonline, oret, wret >>
-
-k_top(self) == /\ pc[self] = "k_top"
-               /\ IF it[self] = END
-                     THEN /\ pc' = [pc EXCEPT ![self] = "s_end"]
-                     ELSE /\ pc' = [pc EXCEPT ![self] = "k_next"]
-               /\ UNCHANGED << mem, sb, lock, acc, registry, qsr, sleeping, 
-                               woken, faults, myctr, alive, cs, pre, departed, 
-                               wnlive, i, op, res, g, f, w, v, held, old, oldh, 
-                               popped, it, nx, st, wi, wl, scan, setw, 
-                               wasonline, oret, wret >>
+                                wasonline, wret, caddr, cval, cret >>
 
 k_next(self) == /\ pc[self] = "k_next"
                 /\ Assert(wnlive[WnOwner(it[self])], 
-                          "Failure of assertion at line 251, column 11.")
+                          "Failure of assertion at line 268, column 11.")
                 /\ nx' = [nx EXCEPT ![self] = Rd(self, (WnNext(it[self])))]
                 /\ acc' = Ev(self, "ld", (WnNext(it[self])), "-", "-", Rd(self, (WnNext(it[self]))))
                 /\ IF nx'[self] = NULL
                       THEN /\ pc' = [pc EXCEPT ![self] = "k_next"]
                       ELSE /\ pc' = [pc EXCEPT ![self] = "k_ldst"]
                 /\ UNCHANGED << mem, sb, lock, registry, qsr, sleeping, woken, 
-                                faults, myctr, alive, cs, pre, departed, 
+                                wkind, faults, myctr, alive, cs, pre, departed, 
                                 wnlive, i, op, res, g, f, w, v, held, old, 
                                 oldh, popped, it, st, wi, wl, scan, setw, 
-                                wasonline, oret, wret >>
+                                wasonline, oret, wret, caddr, cval, cret >>
 
 k_ldst(self) == /\ pc[self] = "k_ldst"
                 /\ Assert(wnlive[WnOwner(it[self])], 
-                          "Failure of assertion at line 254, column 11.")
+                          "Failure of assertion at line 271, column 11.")
                 /\ st' = [st EXCEPT ![self] = Rd(self, (WnState(it[self])))]
                 /\ acc' = Ev(self, "ld", (WnState(it[self])), "-", "-", Rd(self, (WnState(it[self]))))
                 /\ IF HasBit(st'[self], RUNNING)
                       THEN /\ it' = [it EXCEPT ![self] = nx[self]]
-                           /\ pc' = [pc EXCEPT ![self] = "k_top"]
+                           /\ IF nx[self] # END
+                                 THEN /\ pc' = [pc EXCEPT ![self] = "k_next"]
+                                      /\ oret' = oret
+                                 ELSE /\ IF wasonline[self]
+                                            THEN /\ oret' = [oret EXCEPT ![self] = "s_ret"]
+                                                 /\ pc' = [pc EXCEPT ![self] = "on_ld"]
+                                            ELSE /\ pc' = [pc EXCEPT ![self] = "s_mbx"]
+                                                 /\ oret' = oret
                       ELSE /\ pc' = [pc EXCEPT ![self] = "k_as"]
-                           /\ it' = it
+                           /\ UNCHANGED << it, oret >>
                 /\ UNCHANGED << mem, sb, lock, registry, qsr, sleeping, woken, 
-                                faults, myctr, alive, cs, pre, departed, 
+                                wkind, faults, myctr, alive, cs, pre, departed, 
                                 wnlive, i, op, res, g, f, w, v, held, old, 
                                 oldh, popped, nx, wi, wl, scan, setw, 
-                                wasonline, oret, wret >>
+                                wasonline, wret, caddr, cval, cret >>
 
 k_as(self) == /\ pc[self] = "k_as"
               /\ Assert(wnlive[WnOwner(it[self])], 
-                        "Failure of assertion at line 257, column 11.")
+                        "Failure of assertion at line 274, column 11.")
               /\ st' = [st EXCEPT ![self] = Rd(self, (WnState(it[self])))]
               /\ acc' = Ev(self, "ld", (WnState(it[self])), "-", "-", Rd(self, (WnState(it[self]))))
               /\ Assert(st'[self] = WAITING, 
-                        "Failure of assertion at line 259, column 11.")
+                        "Failure of assertion at line 276, column 11.")
               /\ pc' = [pc EXCEPT ![self] = "k_wk"]
               /\ UNCHANGED << mem, sb, lock, registry, qsr, sleeping, woken, 
-                              faults, myctr, alive, cs, pre, departed, wnlive, 
-                              i, op, res, g, f, w, v, held, old, oldh, popped, 
-                              it, nx, wi, wl, scan, setw, wasonline, oret, 
-                              wret >>
+                              wkind, faults, myctr, alive, cs, pre, departed, 
+                              wnlive, i, op, res, g, f, w, v, held, old, oldh, 
+                              popped, it, nx, wi, wl, scan, setw, wasonline, 
+                              oret, wret, caddr, cval, cret >>
 
 k_wk(self) == /\ pc[self] = "k_wk"
               /\ Assert(wnlive[WnOwner(it[self])], 
-                        "Failure of assertion at line 260, column 11.")
+                        "Failure of assertion at line 277, column 11.")
               /\ IF TSO
                     THEN /\ sb' = [sb EXCEPT ![self] = Append(sb[self], <<(WnState(it[self])), WAKEUP>>)]
                          /\ mem' = mem
@@ -1161,51 +1273,68 @@ k_wk(self) == /\ pc[self] = "k_wk"
                          /\ sb' = sb
               /\ acc' = Ev(self, "st", (WnState(it[self])), WAKEUP, "-", "-")
               /\ pc' = [pc EXCEPT ![self] = "k_ld2"]
-              /\ UNCHANGED << lock, registry, qsr, sleeping, woken, faults, 
-                              myctr, alive, cs, pre, departed, wnlive, i, op, 
-                              res, g, f, w, v, held, old, oldh, popped, it, nx, 
-                              st, wi, wl, scan, setw, wasonline, oret, wret >>
+              /\ UNCHANGED << lock, registry, qsr, sleeping, woken, wkind, 
+                              faults, myctr, alive, cs, pre, departed, wnlive, 
+                              i, op, res, g, f, w, v, held, old, oldh, popped, 
+                              it, nx, st, wi, wl, scan, setw, wasonline, oret, 
+                              wret, caddr, cval, cret >>
 
 k_ld2(self) == /\ pc[self] = "k_ld2"
                /\ Assert(wnlive[WnOwner(it[self])], 
-                         "Failure of assertion at line 262, column 11.")
+                         "Failure of assertion at line 279, column 11.")
                /\ st' = [st EXCEPT ![self] = Rd(self, (WnState(it[self])))]
                /\ acc' = Ev(self, "ld", (WnState(it[self])), "-", "-", Rd(self, (WnState(it[self]))))
                /\ IF HasBit(st'[self], RUNNING)
                      THEN /\ pc' = [pc EXCEPT ![self] = "k_or"]
                      ELSE /\ pc' = [pc EXCEPT ![self] = "k_fw"]
                /\ UNCHANGED << mem, sb, lock, registry, qsr, sleeping, woken, 
-                               faults, myctr, alive, cs, pre, departed, wnlive, 
-                               i, op, res, g, f, w, v, held, old, oldh, popped, 
-                               it, nx, wi, wl, scan, setw, wasonline, oret, 
-                               wret >>
+                               wkind, faults, myctr, alive, cs, pre, departed, 
+                               wnlive, i, op, res, g, f, w, v, held, old, oldh, 
+                               popped, it, nx, wi, wl, scan, setw, wasonline, 
+                               oret, wret, caddr, cval, cret >>
 
 k_fw(self) == /\ pc[self] = "k_fw"
-              /\ Drained(self)
-              /\ \E x \in IF Sleepers((WnState(it[self]))) = {} THEN {"none"} ELSE Sleepers((WnState(it[self]))):
-                   /\ IF x # "none"
-                         THEN /\ woken' = [woken EXCEPT ![x] = TRUE]
-                         ELSE /\ TRUE
-                              /\ woken' = woken
-                   /\ acc' = Ev(self, "fwake", (WnState(it[self])), "-", "-", IF x = "none" THEN 0 ELSE 1)
-              /\ pc' = [pc EXCEPT ![self] = "k_or"]
-              /\ UNCHANGED << mem, sb, lock, registry, qsr, sleeping, faults, 
-                              myctr, alive, cs, pre, departed, wnlive, i, op, 
-                              res, g, f, w, v, held, old, oldh, popped, it, nx, 
-                              st, wi, wl, scan, setw, wasonline, oret, wret >>
+              /\ IF FutexMode = "compat"
+                    THEN /\ Drained(self)
+                         /\ acc' = Ev(self, "fwake", WnState(it[self]), "-", "-", "ENOSYS")
+                         /\ cret' = [cret EXCEPT ![self] = "k_or"]
+                         /\ pc' = [pc EXCEPT ![self] = "c_mb"]
+                         /\ woken' = woken
+                    ELSE /\ Drained(self)
+                         /\ \E x \in IF Sleepers((WnState(it[self]))) = {} THEN {"none"} ELSE Sleepers((WnState(it[self]))):
+                              /\ IF x # "none"
+                                    THEN /\ woken' = [woken EXCEPT ![x] = TRUE]
+                                    ELSE /\ TRUE
+                                         /\ woken' = woken
+                              /\ acc' = Ev(self, "fwake", (WnState(it[self])), "-", "-", IF x = "none" THEN 0 ELSE 1)
+                         /\ pc' = [pc EXCEPT ![self] = "k_or"]
+                         /\ cret' = cret
+              /\ UNCHANGED << mem, sb, lock, registry, qsr, sleeping, wkind, 
+                              faults, myctr, alive, cs, pre, departed, wnlive, 
+                              i, op, res, g, f, w, v, held, old, oldh, popped, 
+                              it, nx, st, wi, wl, scan, setw, wasonline, oret, 
+                              wret, caddr, cval >>
 
 k_or(self) == /\ pc[self] = "k_or"
               /\ Assert(wnlive[WnOwner(it[self])], 
-                        "Failure of assertion at line 266, column 11.")
+                        "Failure of assertion at line 284, column 11.")
               /\ Drained(self)
               /\ /\ acc' = Ev(self, "or", WnState(it[self]), TEARDOWN, "-", OrBit(mem[WnState(it[self])], TEARDOWN))
                  /\ mem' = [mem EXCEPT ![WnState(it[self])] = OrBit(mem[WnState(it[self])], TEARDOWN)]
               /\ it' = [it EXCEPT ![self] = nx[self]]
-              /\ pc' = [pc EXCEPT ![self] = "k_top"]
-              /\ UNCHANGED << sb, lock, registry, qsr, sleeping, woken, faults, 
-                              myctr, alive, cs, pre, departed, wnlive, i, op, 
-                              res, g, f, w, v, held, old, oldh, popped, nx, st, 
-                              wi, wl, scan, setw, wasonline, oret, wret >>
+              /\ IF nx[self] # END
+                    THEN /\ pc' = [pc EXCEPT ![self] = "k_next"]
+                         /\ oret' = oret
+                    ELSE /\ IF wasonline[self]
+                               THEN /\ oret' = [oret EXCEPT ![self] = "s_ret"]
+                                    /\ pc' = [pc EXCEPT ![self] = "on_ld"]
+                               ELSE /\ pc' = [pc EXCEPT ![self] = "s_mbx"]
+                                    /\ oret' = oret
+              /\ UNCHANGED << sb, lock, registry, qsr, sleeping, woken, wkind, 
+                              faults, myctr, alive, cs, pre, departed, wnlive, 
+                              i, op, res, g, f, w, v, held, old, oldh, popped, 
+                              nx, st, wi, wl, scan, setw, wasonline, wret, 
+                              caddr, cval, cret >>
 
 a_ld1(self) == /\ pc[self] = "a_ld1"
                /\ st' = [st EXCEPT ![self] = Rd(self, (WnState(Wn(self))))]
@@ -1218,9 +1347,10 @@ a_ld1(self) == /\ pc[self] = "a_ld1"
                                 THEN /\ pc' = [pc EXCEPT ![self] = "a_ld1"]
                                 ELSE /\ pc' = [pc EXCEPT ![self] = "a_ld2"]
                /\ UNCHANGED << mem, sb, lock, registry, qsr, sleeping, woken, 
-                               faults, myctr, alive, cs, pre, departed, wnlive, 
-                               i, op, res, g, f, w, v, held, old, oldh, popped, 
-                               it, nx, wl, scan, setw, wasonline, oret, wret >>
+                               wkind, faults, myctr, alive, cs, pre, departed, 
+                               wnlive, i, op, res, g, f, w, v, held, old, oldh, 
+                               popped, it, nx, wl, scan, setw, wasonline, oret, 
+                               wret, caddr, cval, cret >>
 
 a_ld2(self) == /\ pc[self] = "a_ld2"
                /\ st' = [st EXCEPT ![self] = Rd(self, (WnState(Wn(self))))]
@@ -1229,43 +1359,46 @@ a_ld2(self) == /\ pc[self] = "a_ld2"
                      THEN /\ pc' = [pc EXCEPT ![self] = "a_or"]
                      ELSE /\ pc' = [pc EXCEPT ![self] = "a_fw"]
                /\ UNCHANGED << mem, sb, lock, registry, qsr, sleeping, woken, 
-                               faults, myctr, alive, cs, pre, departed, wnlive, 
-                               i, op, res, g, f, w, v, held, old, oldh, popped, 
-                               it, nx, wi, wl, scan, setw, wasonline, oret, 
-                               wret >>
+                               wkind, faults, myctr, alive, cs, pre, departed, 
+                               wnlive, i, op, res, g, f, w, v, held, old, oldh, 
+                               popped, it, nx, wi, wl, scan, setw, wasonline, 
+                               oret, wret, caddr, cval, cret >>
 
 a_fw(self) == /\ pc[self] = "a_fw"
               /\ Drained(self)
-              /\ IF mem[WnState(Wn(self))] # WAITING
-                    THEN /\ acc' = Ev(self, "fwait", WnState(Wn(self)), WAITING, "-", "EAGAIN")
-                         /\ pc' = [pc EXCEPT ![self] = "a_or"]
+              /\ IF FutexMode = "compat"
+                    THEN /\ acc' = Ev(self, "fwait", WnState(Wn(self)), "-", "-", "ENOSYS")
+                         /\ caddr' = [caddr EXCEPT ![self] = WnState(Wn(self))]
+                         /\ cval' = [cval EXCEPT ![self] = WAITING]
+                         /\ cret' = [cret EXCEPT ![self] = "a_ld2"]
+                         /\ pc' = [pc EXCEPT ![self] = "c_mb"]
                          /\ UNCHANGED << sleeping, woken >>
-                    ELSE /\ sleeping' = [sleeping EXCEPT ![self] = WnState(Wn(self))]
-                         /\ woken' = [woken EXCEPT ![self] = FALSE]
-                         /\ acc' = Ev(self, "fwait", WnState(Wn(self)), WAITING, "-", "SLEEP")
-                         /\ pc' = [pc EXCEPT ![self] = "a_wk"]
+                    ELSE /\ IF mem[WnState(Wn(self))] # WAITING
+                               THEN /\ acc' = Ev(self, "fwait", WnState(Wn(self)), WAITING, "-", "EAGAIN")
+                                    /\ pc' = [pc EXCEPT ![self] = "a_or"]
+                                    /\ UNCHANGED << sleeping, woken >>
+                               ELSE /\ sleeping' = [sleeping EXCEPT ![self] = WnState(Wn(self))]
+                                    /\ woken' = [woken EXCEPT ![self] = FALSE]
+                                    /\ acc' = Ev(self, "fwait", WnState(Wn(self)), WAITING, "-", "SLEEP")
+                                    /\ pc' = [pc EXCEPT ![self] = "a_wk"]
+                         /\ UNCHANGED << caddr, cval, cret >>
+              /\ UNCHANGED << mem, sb, lock, registry, qsr, wkind, faults, 
+                              myctr, alive, cs, pre, departed, wnlive, i, op, 
+                              res, g, f, w, v, held, old, oldh, popped, it, nx, 
+                              st, wi, wl, scan, setw, wasonline, oret, wret >>
+
+a_wk(self) == /\ pc[self] = "a_wk"
+              /\ woken[self]
+              /\ acc' = Ev(self, "fwoke", WnState(Wn(self)), "-", "-", IF wkind[self] = "none" THEN "WAKE" ELSE wkind[self])
+              /\ sleeping' = [sleeping EXCEPT ![self] = "none"]
+              /\ woken' = [woken EXCEPT ![self] = FALSE]
+              /\ wkind' = [wkind EXCEPT ![self] = "none"]
+              /\ pc' = [pc EXCEPT ![self] = "a_ld2"]
               /\ UNCHANGED << mem, sb, lock, registry, qsr, faults, myctr, 
                               alive, cs, pre, departed, wnlive, i, op, res, g, 
                               f, w, v, held, old, oldh, popped, it, nx, st, wi, 
-                              wl, scan, setw, wasonline, oret, wret >>
-
-a_wk(self) == /\ pc[self] = "a_wk"
-              /\ \/ /\ woken[self]
-                    /\ acc' = Ev(self, "fwoke", WnState(Wn(self)), "-", "-", "WAKE")
-                    /\ UNCHANGED faults
-                 \/ /\ ~woken[self] /\ faults < FaultBudget
-                    /\ faults' = faults + 1
-                    /\ acc' = Ev(self, "fwoke", WnState(Wn(self)), "-", "-", "SPURIOUS")
-                 \/ /\ ~woken[self] /\ faults < FaultBudget
-                    /\ faults' = faults + 1
-                    /\ acc' = Ev(self, "fwoke", WnState(Wn(self)), "-", "-", "EINTR")
-              /\ sleeping' = [sleeping EXCEPT ![self] = "none"]
-              /\ woken' = [woken EXCEPT ![self] = FALSE]
-              /\ pc' = [pc EXCEPT ![self] = "a_ld2"]
-              /\ UNCHANGED << mem, sb, lock, registry, qsr, myctr, alive, cs, 
-                              pre, departed, wnlive, i, op, res, g, f, w, v, 
-                              held, old, oldh, popped, it, nx, st, wi, wl, 
-                              scan, setw, wasonline, oret, wret >>
+                              wl, scan, setw, wasonline, oret, wret, caddr, 
+                              cval, cret >>
 
 a_or(self) == /\ pc[self] = "a_or"
               /\ Drained(self)
@@ -1273,10 +1406,11 @@ a_or(self) == /\ pc[self] = "a_or"
                  /\ mem' = [mem EXCEPT ![WnState(Wn(self))] = OrBit(mem[WnState(Wn(self))], RUNNING)]
               /\ wi' = [wi EXCEPT ![self] = 0]
               /\ pc' = [pc EXCEPT ![self] = "a_ld3"]
-              /\ UNCHANGED << sb, lock, registry, qsr, sleeping, woken, faults, 
-                              myctr, alive, cs, pre, departed, wnlive, i, op, 
-                              res, g, f, w, v, held, old, oldh, popped, it, nx, 
-                              st, wl, scan, setw, wasonline, oret, wret >>
+              /\ UNCHANGED << sb, lock, registry, qsr, sleeping, woken, wkind, 
+                              faults, myctr, alive, cs, pre, departed, wnlive, 
+                              i, op, res, g, f, w, v, held, old, oldh, popped, 
+                              it, nx, st, wl, scan, setw, wasonline, oret, 
+                              wret, caddr, cval, cret >>
 
 a_ld3(self) == /\ pc[self] = "a_ld3"
                /\ st' = [st EXCEPT ![self] = Rd(self, (WnState(Wn(self))))]
@@ -1289,9 +1423,10 @@ a_ld3(self) == /\ pc[self] = "a_ld3"
                                 THEN /\ pc' = [pc EXCEPT ![self] = "a_ld3"]
                                 ELSE /\ pc' = [pc EXCEPT ![self] = "a_ld4"]
                /\ UNCHANGED << mem, sb, lock, registry, qsr, sleeping, woken, 
-                               faults, myctr, alive, cs, pre, departed, wnlive, 
-                               i, op, res, g, f, w, v, held, old, oldh, popped, 
-                               it, nx, wl, scan, setw, wasonline, oret, wret >>
+                               wkind, faults, myctr, alive, cs, pre, departed, 
+                               wnlive, i, op, res, g, f, w, v, held, old, oldh, 
+                               popped, it, nx, wl, scan, setw, wasonline, oret, 
+                               wret, caddr, cval, cret >>
 
 a_ld4(self) == /\ pc[self] = "a_ld4"
                /\ st' = [st EXCEPT ![self] = Rd(self, (WnState(Wn(self))))]
@@ -1300,34 +1435,67 @@ a_ld4(self) == /\ pc[self] = "a_ld4"
                      THEN /\ pc' = [pc EXCEPT ![self] = "a_ld4"]
                      ELSE /\ pc' = [pc EXCEPT ![self] = "a_ld5"]
                /\ UNCHANGED << mem, sb, lock, registry, qsr, sleeping, woken, 
-                               faults, myctr, alive, cs, pre, departed, wnlive, 
-                               i, op, res, g, f, w, v, held, old, oldh, popped, 
-                               it, nx, wi, wl, scan, setw, wasonline, oret, 
-                               wret >>
+                               wkind, faults, myctr, alive, cs, pre, departed, 
+                               wnlive, i, op, res, g, f, w, v, held, old, oldh, 
+                               popped, it, nx, wi, wl, scan, setw, wasonline, 
+                               oret, wret, caddr, cval, cret >>
 
 a_ld5(self) == /\ pc[self] = "a_ld5"
                /\ st' = [st EXCEPT ![self] = Rd(self, (WnState(Wn(self))))]
                /\ acc' = Ev(self, "ld", (WnState(Wn(self))), "-", "-", Rd(self, (WnState(Wn(self)))))
                /\ Assert(HasBit(st'[self], TEARDOWN), 
-                         "Failure of assertion at line 294, column 11.")
-               /\ pc' = [pc EXCEPT ![self] = "s_end"]
-               /\ UNCHANGED << mem, sb, lock, registry, qsr, sleeping, woken, 
-                               faults, myctr, alive, cs, pre, departed, wnlive, 
-                               i, op, res, g, f, w, v, held, old, oldh, popped, 
-                               it, nx, wi, wl, scan, setw, wasonline, oret, 
-                               wret >>
-
-s_end(self) == /\ pc[self] = "s_end"
+                         "Failure of assertion at line 312, column 11.")
                /\ IF wasonline[self]
                      THEN /\ oret' = [oret EXCEPT ![self] = "s_ret"]
                           /\ pc' = [pc EXCEPT ![self] = "on_ld"]
                      ELSE /\ pc' = [pc EXCEPT ![self] = "s_mbx"]
                           /\ oret' = oret
-               /\ UNCHANGED << mem, sb, lock, acc, registry, qsr, sleeping, 
-                               woken, faults, myctr, alive, cs, pre, departed, 
+               /\ UNCHANGED << mem, sb, lock, registry, qsr, sleeping, woken, 
+                               wkind, faults, myctr, alive, cs, pre, departed, 
                                wnlive, i, op, res, g, f, w, v, held, old, oldh, 
-                               popped, it, nx, st, wi, wl, scan, setw, 
-                               wasonline, wret >>
+                               popped, it, nx, wi, wl, scan, setw, wasonline, 
+                               wret, caddr, cval, cret >>
+
+c_mb(self) == /\ pc[self] = "c_mb"
+              /\ Drained(self)
+              /\ acc' = Ev(self, "mb", "-", "-", "-", "-")
+              /\ IF cret[self] = "wg_ld" \/ cret[self] = "a_ld2"
+                    THEN /\ pc' = [pc EXCEPT ![self] = "c_ld"]
+                    ELSE /\ IF cret[self] = "k_or"
+                               THEN /\ pc' = [pc EXCEPT ![self] = "k_or"]
+                               ELSE /\ IF wret[self] = "q_mb"
+                                          THEN /\ pc' = [pc EXCEPT ![self] = "q_mb"]
+                                          ELSE /\ IF oret[self] = "t_ret"
+                                                     THEN /\ pc' = [pc EXCEPT ![self] = "t_ret"]
+                                                     ELSE /\ IF oret[self] = "x_lock"
+                                                                THEN /\ pc' = [pc EXCEPT ![self] = "x_lock"]
+                                                                ELSE /\ pc' = [pc EXCEPT ![self] = "s_mb0"]
+              /\ UNCHANGED << mem, sb, lock, registry, qsr, sleeping, woken, 
+                              wkind, faults, myctr, alive, cs, pre, departed, 
+                              wnlive, i, op, res, g, f, w, v, held, old, oldh, 
+                              popped, it, nx, st, wi, wl, scan, setw, 
+                              wasonline, oret, wret, caddr, cval, cret >>
+
+c_ld(self) == /\ pc[self] = "c_ld"
+              /\ IF Tracing
+                    THEN /\ f' = [f EXCEPT ![self] = Rd(self, caddr[self])]
+                         /\ acc' = Ev(self, "ld", caddr[self], "-", "-", Rd(self, caddr[self]))
+                         /\ IF f'[self] = cval[self]
+                               THEN /\ pc' = [pc EXCEPT ![self] = "c_ld"]
+                               ELSE /\ IF cret[self] = "wg_ld"
+                                          THEN /\ pc' = [pc EXCEPT ![self] = "wg_ld"]
+                                          ELSE /\ pc' = [pc EXCEPT ![self] = "a_ld2"]
+                    ELSE /\ Rd(self, caddr[self]) # cval[self]
+                         /\ f' = [f EXCEPT ![self] = Rd(self, caddr[self])]
+                         /\ acc' = Ev(self, "ld", caddr[self], "-", "-", Rd(self, caddr[self]))
+                         /\ IF cret[self] = "wg_ld"
+                               THEN /\ pc' = [pc EXCEPT ![self] = "wg_ld"]
+                               ELSE /\ pc' = [pc EXCEPT ![self] = "a_ld2"]
+              /\ UNCHANGED << mem, sb, lock, registry, qsr, sleeping, woken, 
+                              wkind, faults, myctr, alive, cs, pre, departed, 
+                              wnlive, i, op, res, g, w, v, held, old, oldh, 
+                              popped, it, nx, st, wi, wl, scan, setw, 
+                              wasonline, oret, wret, caddr, cval, cret >>
 
 s_mbx(self) == /\ pc[self] = "s_mbx"
                /\ IF "s_mbx" \notin Skip
@@ -1337,23 +1505,24 @@ s_mbx(self) == /\ pc[self] = "s_mbx"
                           /\ acc' = acc
                /\ pc' = [pc EXCEPT ![self] = "s_ret"]
                /\ UNCHANGED << mem, sb, lock, registry, qsr, sleeping, woken, 
-                               faults, myctr, alive, cs, pre, departed, wnlive, 
-                               i, op, res, g, f, w, v, held, old, oldh, popped, 
-                               it, nx, st, wi, wl, scan, setw, wasonline, oret, 
-                               wret >>
+                               wkind, faults, myctr, alive, cs, pre, departed, 
+                               wnlive, i, op, res, g, f, w, v, held, old, oldh, 
+                               popped, it, nx, st, wi, wl, scan, setw, 
+                               wasonline, oret, wret, caddr, cval, cret >>
 
 s_ret(self) == /\ pc[self] = "s_ret"
                /\ Assert(pre[self] \cap OpenCS = {}, 
-                         "Failure of assertion at line 299, column 11.")
+                         "Failure of assertion at line 325, column 11.")
                /\ mem' = [mem EXCEPT ![WnNext(Wn(self))] = NULL,
                                      ![WnState(Wn(self))] = 0]
                /\ pre' = [pre EXCEPT ![self] = {}]
                /\ wnlive' = [wnlive EXCEPT ![self] = FALSE]
                /\ pc' = [pc EXCEPT ![self] = "t_ret"]
                /\ UNCHANGED << sb, lock, acc, registry, qsr, sleeping, woken, 
-                               faults, myctr, alive, cs, departed, i, op, res, 
-                               g, f, w, v, held, old, oldh, popped, it, nx, st, 
-                               wi, wl, scan, setw, wasonline, oret, wret >>
+                               wkind, faults, myctr, alive, cs, departed, i, 
+                               op, res, g, f, w, v, held, old, oldh, popped, 
+                               it, nx, st, wi, wl, scan, setw, wasonline, oret, 
+                               wret, caddr, cval, cret >>
 
 t_ret(self) == /\ pc[self] = "t_ret"
                /\ IF op[self].op \in {"reg", "online", "qs"} \/ (op[self].op = "sync" /\ wasonline[self])
@@ -1361,43 +1530,45 @@ t_ret(self) == /\ pc[self] = "t_ret"
                      ELSE /\ TRUE
                           /\ cs' = cs
                /\ i' = [i EXCEPT ![self] = i[self] + 1]
+               /\ res' = [res EXCEPT ![self] = "-"]
                /\ pc' = [pc EXCEPT ![self] = "t_top"]
                /\ UNCHANGED << mem, sb, lock, acc, registry, qsr, sleeping, 
-                               woken, faults, myctr, alive, pre, departed, 
-                               wnlive, op, res, g, f, w, v, held, old, oldh, 
-                               popped, it, nx, st, wi, wl, scan, setw, 
-                               wasonline, oret, wret >>
+                               woken, wkind, faults, myctr, alive, pre, 
+                               departed, wnlive, op, g, f, w, v, held, old, 
+                               oldh, popped, it, nx, st, wi, wl, scan, setw, 
+                               wasonline, oret, wret, caddr, cval, cret >>
 
 t_end(self) == /\ pc[self] = "t_end"
                /\ TRUE
                /\ pc' = [pc EXCEPT ![self] = "Done"]
                /\ UNCHANGED << mem, sb, lock, acc, registry, qsr, sleeping, 
-                               woken, faults, myctr, alive, cs, pre, departed, 
-                               wnlive, i, op, res, g, f, w, v, held, old, oldh, 
-                               popped, it, nx, st, wi, wl, scan, setw, 
-                               wasonline, oret, wret >>
+                               woken, wkind, faults, myctr, alive, cs, pre, 
+                               departed, wnlive, i, op, res, g, f, w, v, held, 
+                               old, oldh, popped, it, nx, st, wi, wl, scan, 
+                               setw, wasonline, oret, wret, caddr, cval, cret >>
 
-thr(self) == t_top(self) \/ t_disp(self) \/ g_lock(self) \/ g_unl(self)
-                \/ x_lock(self) \/ x_unl(self) \/ q_ld(self) \/ q_st(self)
-                \/ q_mb(self) \/ off_st(self) \/ on_ld(self) \/ on_st(self)
+thr(self) == t_top(self) \/ g_lock(self) \/ g_unl(self) \/ x_lock(self)
+                \/ x_unl(self) \/ q_ld(self) \/ q_st(self) \/ q_mb(self)
+                \/ off_st(self) \/ on_ld(self) \/ on_st(self)
                 \/ on_mb(self) \/ wk_ldw(self) \/ wk_stw(self)
                 \/ wk_mb(self) \/ wk_ldf(self) \/ wk_stf(self)
-                \/ wk_wake(self) \/ wk_ret(self) \/ dr_ld(self)
-                \/ p_xchg(self) \/ s_call(self) \/ s_mbe(self)
-                \/ s_mb0(self) \/ s_push(self) \/ s_link(self)
-                \/ s_run(self) \/ s_gplk(self) \/ s_pop(self)
-                \/ s_popmb(self) \/ s_rglk(self) \/ s_inc(self)
-                \/ s_mb1(self) \/ w_stf(self) \/ w_stw(self) \/ w_mb(self)
-                \/ w_ldr(self) \/ w_st0(self) \/ w_unl(self) \/ wg_ld(self)
-                \/ wg_fw(self) \/ wg_wk(self) \/ w_relock(self)
-                \/ s_out(self) \/ s_gpun(self) \/ k_top(self)
+                \/ wk_wake(self) \/ dr_ld(self) \/ p_xchg(self)
+                \/ s_mbe(self) \/ s_mb0(self) \/ s_push(self)
+                \/ s_link(self) \/ s_run(self) \/ s_gplk(self)
+                \/ s_pop(self) \/ s_popmb(self) \/ s_rglk(self)
+                \/ s_inc(self) \/ s_mb1(self) \/ w_stf(self) \/ w_stw(self)
+                \/ w_mb(self) \/ w_ldr(self) \/ w_st0(self) \/ w_unl(self)
+                \/ wg_ld(self) \/ wg_fw(self) \/ wg_wk(self)
+                \/ w_relock(self) \/ s_out(self) \/ s_gpun(self)
                 \/ k_next(self) \/ k_ldst(self) \/ k_as(self) \/ k_wk(self)
                 \/ k_ld2(self) \/ k_fw(self) \/ k_or(self) \/ a_ld1(self)
                 \/ a_ld2(self) \/ a_fw(self) \/ a_wk(self) \/ a_or(self)
-                \/ a_ld3(self) \/ a_ld4(self) \/ a_ld5(self) \/ s_end(self)
-                \/ s_mbx(self) \/ s_ret(self) \/ t_ret(self) \/ t_end(self)
+                \/ a_ld3(self) \/ a_ld4(self) \/ a_ld5(self) \/ c_mb(self)
+                \/ c_ld(self) \/ s_mbx(self) \/ s_ret(self) \/ t_ret(self)
+                \/ t_end(self)
 
 Next == (\E self \in Flushers: flusher(self))
+           \/ (\E self \in Faulters: faulter(self))
            \/ (\E self \in Threads: thr(self))
 
 Spec == /\ Init /\ [][Next]_vars
